@@ -34,20 +34,27 @@ ACCEPTED SUBSET (anything else: the function is NOT emitted, the reason is writt
 generated file, exit code stays 0, and every tie theorem that mentions it stops compiling — never a guess):
 
   statements   x = e | x, y = e (tuple) | x op= e | if/elif/else | return e | return | pass | docstring |
-               x.append(e) for a list x created in this function by list() / [] / [..] |
+               x.append(e) / x.remove(e) for a list x created in this function by list() / [] / [..] |
                x = C(a, ..) / x = <object-valued call> (LOCAL OBJECT, below) | x.attr = e | x.attr op= e |
-               print(...) (dropped; strings are opaque, below)
+               print(...) (dropped; strings are opaque, below) |
+               for i in range(a[, b[, step]]): … | for x in L: … (L a list variable the body does not modify) |
+               while c: … | while True: … | while 1: … | break | continue          (LOOPS, below)
   expressions  names, int / float / bool literals, unary - + not, + - * / on floats (int operands converted),
-               + - * // % on ints, ** and pow(x, y) with a float operand (uninterpreted `pow`), comparisons (chains of
-               two), and / or / & / | on bools, e1 if c else e2, L[k] (k a literal >= 0) on a list or a tuple, tuples,
-               list displays, math.sqrt/sin/cos/tan/atan/atan2/exp/log/floor and math.pi (uninterpreted parameters),
-               math.fabs, abs, min/max of two numbers (one a float), float(x), int(x) (uninterpreted `trunc` on a float),
-               x.is_integer(), declared attributes / accessors of object parameters, attributes of local objects,
-               module constants, calls of other whitelisted functions / methods of the same file.
-  NOT accepted loops, comprehensions, recursion, subscripts that are not literals, subscript assignment, try, with,
-               lambda, global, starred / keyword arguments, omitted (defaulted) arguments, truthiness of non-bools,
-               a name that may be unbound, a function that can fall off its end unless its return type is optional,
-               an object used as a plain value (alias, argument of an untranslated call), stores into a parameter.
+               + - * // % >> on ints, ** and pow(x, y) with a float operand (uninterpreted `pow`), comparisons (chains of
+               two), `x in L` / `x not in L` (x an int or a tuple of ints), and / or / & / | on bools, e1 if c else e2,
+               L[k] (k a literal >= 0) on a list or a tuple, L[e] (e any int expression) on a list, len(L), tuples,
+               list displays, math.sqrt/sin/cos/tan/atan/atan2/exp/log/floor and math.pi/inf/nan (uninterpreted parameters),
+               float("nan") / float("inf") / a literal that overflows such as 1e400 (parameters `nan`, `inf`),
+               math.fabs, abs, min/max of numbers (n-ary; CPython's "first among equals"), float(x), int(x) (uninterpreted
+               `trunc` on a float), x.is_integer(), declared attributes / accessors of object parameters, attributes of
+               local objects, module constants, class constants `C.NAME`, calls of other whitelisted functions / methods of
+               the same file, calls DECLARED to be the identity on a list (`assume_identity`, below).
+  NOT accepted comprehensions, recursion, slices, subscript assignment, try, with, lambda, global, for/while ... else, starred /
+               keyword arguments, omitted (defaulted) arguments except in a constructor call, truthiness of non-bools
+               (except `while 1`), a name that may be unbound unless it is DECLARED `unbound[τ]`, a function that can fall
+               off its end unless its return type is optional, an object used as a plain value (alias, argument of an
+               untranslated call), stores into a parameter's attributes, iteration over a list the body modifies, reading the
+               loop variable after its loop.
 
 TRANSLATION RULES (⟦·⟧ on statement lists gives a term of type `Py.M τ`):
   ⟦return e ; _⟧            = B(e, v => .ok v)                (statements after a return are unreachable)
@@ -63,14 +70,74 @@ TRANSLATION RULES (⟦·⟧ on statement lists gives a term of type `Py.M τ`):
   `/`, `//`, `%` by a non-zero numeric LITERAL (or a module constant defined as one) cannot raise and are
   rendered as the plain operation.
   MODULE CONSTANT: a name that is neither a parameter nor assigned in the function, bound exactly once at module level,
-  never declared `global`, whose defining expression is literal arithmetic: that expression is inlined (a rebinding of
-  the module attribute from outside the file at run time is not seen).
-  LOCAL OBJECT: `x = C(a, b, c)` for a class C of the same file whose `__init__` is exactly `self.p = p` for each
-  parameter (checked on the current source), or `x = <call returning object[C]>`: one Lean variable per attribute
-  (`x_p`); `x.p = e`, `x.p op= e`, `x.p`, `x.method()` (C.method translated, called with x's attributes) and `return x`
-  are accepted; any other use of `x` (alias, argument of an untranslated call) is refused, so no alias can exist.
+  never declared `global`, whose defining expression is literal arithmetic (or float("nan") / float("inf")): that expression is
+  inlined (a rebinding of the module attribute from outside the file at run time is not seen).
+  CLASS CONSTANT: `C.NAME` for a class C of the file, NAME bound exactly once in the class body to literal arithmetic or a list
+  display of literals, and never the target of an attribute store anywhere in the file: inlined likewise.
+  LOCAL OBJECT: `x = C(a, b, c)` for a class C of the same file whose `__init__` is exactly one `self.a = p` for each
+  parameter p, in any order (checked on the current source; it may be wrapped in `if isinstance(<first parameter>, str): …
+  else: <the stores>` — the string form of the constructor is never taken because only numeric arguments are accepted),
+  or `x = <call returning object[C]>`: one Lean variable per attribute (`x_a`), of type Int when the parameter is annotated
+  `int`, else float; omitted trailing arguments take the literal defaults of `__init__`; `x.p = e`, `x.p op= e`, `x.p`,
+  `x.method()` (C.method translated, called with x's attributes) and `return x` are accepted; any other use of `x` (alias,
+  argument of an untranslated call) is refused, so no alias can exist.
   STRINGS: `"…"`, `"…".format(…)`, `str(…)`, `+` of strings have the opaque type S; an S can only be bound to a local
   or passed to print; nothing is rendered for them and their sub-expressions are ASSUMED not to raise.
+
+LOOPS.  K, the CONTINUATION CONTEXT, says what `return v`, the end of the statement list, `break`, `continue` produce:
+    at function level           return v ↦ .ok v          end ↦ .ok none (optional return type only)      break/continue refused
+    in a loop body (state s)    return v ↦ .ok (.ret v)   end, continue ↦ .ok (.cont s)                   break ↦ .ok (.brk s)
+  LOOP STATE s of a loop = the tuple of the variables that its body (re)binds (assignment, augmented assignment, nested loop
+  targets, lists changed by .append/.remove, one entry per attribute of a local object whose attribute is stored) AND that are
+  bound before the loop, in the order in which they were first bound in the function; followed (in alphabetical order) by the body-bound locals DECLARED
+  `unbound[τ]` in the signature (carried as `Option τ`, `none` until assigned; reading one is `Py.getBound`: UnboundLocalError).
+  A variable bound only inside the body and not declared is local to ONE iteration: reading it at the start of the next
+  iteration or after the loop is refused ("not bound on every path"). A state variable must have the same type at the end of the
+  body as at its start (declare `x: float` when `x = 0` is later added to floats).
+  ⟦for i in range(a, b): B ; rest⟧ = B(a, b, (va, vb) =>
+        Py.bind (Py.forList (fun i s => let x₁ := s.1; …; ⟦B⟧_loop) (Py.range va vb) (x₁, …)) fun r =>
+        match r with | .ret v => K.return v | .done s => let x₁ := s.1; …; ⟦rest⟧_K)
+    `range` is evaluated once, before the loop; `range(a, b, step)` is `Py.rangeStep` (ValueError on step 0);
+    `for x in L` passes the list itself. The loop variable is a parameter of the body; it is not readable after the loop.
+  ⟦while c: B ; rest⟧ = Py.bind (Py.whileLoop (fun s => let x₁ := s.1; …; B(c, v => if v then ⟦B⟧_loop else .ok (.brk s))) fuel (x₁, …)) …
+    with the same `match` after it. `fuel : Nat` is ONE extra parameter of the generated definition (placed after the
+    uninterpreted math functions), shared by all its while loops and passed on to translated callees that have one; running out
+    of fuel is `.error .fuel`, never a value. `while True:` / `while 1:` have no test.
+  ⟦if c: A else: B ; rest⟧ when A, B contain no return/break/continue, rest contains a loop, and every variable A, B bind is
+    already bound (or declared `unbound[τ]`): translated WITH A JOIN instead of duplicating rest —
+        Py.bind (if c then ⟦A⟧_join else ⟦B⟧_join) fun j => let x₁ := j.1; …; ⟦rest⟧_K      (⟦·⟧_join: end ↦ .ok (x₁, …))
+RECORDS AND OBSERVATION LISTS (objects that are only READ; table VIEWS below).  `record[V]`: an object seen through the DECLARED
+  access paths of view V (attributes and argument-less accessors, ASSUMED pure): the tuple of those components. `objlist[V]`: a
+  Track seen as the list of its observations (`X.getObs(e)`, `X[e]`: Py.getIdx — Python indexing, IndexError; `X.getFirstObs()`,
+  `X.getLastObs()`: elements 0 and len-1; `X.size()`, `len(X)`: the length); `list[record[V]]`: a Python list of such objects.
+  `r.p.q()` for a record-valued r (a local bound to one, an element of an observation list) and a declared path `p.q()` (possibly
+  through a record-valued component into ITS view) is the component. A component of type `object[C]` is an object value: its
+  methods and `+`/`-` are resolved statically to C's translated methods, in whichever whitelisted file defines C. A method call /
+  `-` on a record is resolved to the translated method of the view's "__class__"; the callee's declared attributes must be
+  declared paths of the caller's view, with the same types. A record can be bound to a local, appended to a list, put in a list
+  display, passed to such a method, returned inside a list — nothing else (no store into it, no alias of a mutable thing).
+  `isinstance(p, C)` on a never-rebound PARAMETER p is decided from p's declared kind (`list[…]` is a list, `objlist[…]` a Track,
+  a declared float is "int or float": only the disjunction of both tests is accepted) and an `if` on such a test is replaced by the
+  branch taken (this is what makes the VARIANTS of one function under different declared argument types).
+DECLARATIONS IN THE SIGNATURE (7th component, a dict, and the `locals` dict) — each is an ASSUMPTION to be read with the tie:
+  locals {"x": "float" | "int"}            type of a local bound to a bare integer literal (`somme = 0` later added to floats)
+  locals {"x": "list[float]"}              element type of a list created empty (`x = []`) and needed before its first append
+  locals {"x": "unbound[float]"}           x may be read before it is assigned (bound only in a branch / a loop body)
+  {"assume_identity": ["listify"]}         on a list argument the call returns the argument itself (tracklib's `listify`)
+  {"assume_noop": ["Obs.__check_call_geom1"]}   a call statement of this function returns normally and has no effect (an
+                                           argument check that only raises for classes outside the declared ones)
+  {"assume_identity_methods": ["copy"]}    `r.copy()` on a record is the record (records are values in the translation)
+  {"assume_noop_stmts": ["interp_points[0].features = []"]}   this exact statement has no effect on what the function reads later
+  {"make": {"Obs(ENUCoords(_, _, _), ObsTime.readUnixTime(_))": "Obs"}}   CONSTRUCTOR PATTERN: an expression of exactly this shape
+                                           builds a record of view Obs whose leaves are the hole expressions in order (here the time
+                                           component is the ARGUMENT of readUnixTime, the un-stamped instant, as in Model/Resample.lean)
+  {"result_call": "track.setObsList"}      the function's only effect is this call, which must be its LAST statement; its
+                                           argument is translated as the function's return value
+  {"variants": {"prepareTimeSampling": "prepareTimeSampling_number"}}   which of several translations of a callee (same Python
+                                           function, different declared argument types) this function's call is
+  {"imports": {"f": "util/geometry.py"}}   the name f, which this file binds by exactly one `from … import f` and nowhere else at
+                                           module level, IS the whitelisted function f of that file (cross-file call; the generated
+                                           module imports the other generated module and calls `TV.Gen.<Module>.f`)
 """
 import argparse
 import ast
@@ -81,7 +148,7 @@ VERIF = os.path.dirname(os.path.dirname(os.path.abspath(__file__)))
 
 # --------------------------------------------------------------------------------------------------------
 # Declared signatures: the ONLY per-function input of the translator.
-#   (python file under tracklib/, qualified python name, lean name, {param: type}, return type, {local: type})
+#   (python file under tracklib/, qualified python name, lean name, {param: type}, return type, {local: type}[, {option: ...}])
 # The first parameter `self` of a method is not supported (only static methods / functions).
 # --------------------------------------------------------------------------------------------------------
 WHITELIST = [
@@ -94,14 +161,27 @@ WHITELIST = [
      "tuple[float,float]", {"xb": "float"}),
     ("util/geometry.py", "proj_segment", "proj_segment", {"segment": "list[float]", "x": "float", "y": "float"},
      "tuple[float,float,float]", {"xb": "float"}),
+    ("util/geometry.py", "proj_polyligne", "proj_polyligne", {"Xp": "list[float]", "Yp": "list[float]", "x": "float", "y": "float"},
+     "tuple[float,float,float,int]", {"xproj": "unbound[float]", "yproj": "unbound[float]", "iproj": "unbound[int]"}),
     ("util/geometry.py", "triangle_area", "triangle_area",
      {"x0": "float", "y0": "float", "x1": "float", "y1": "float", "x2": "float", "y2": "float"}, "float", {}),
     ("util/geometry.py", "isSegmentIntersects", "isSegmentIntersects", {"segment1": "list[float]", "segment2": "list[float]"}, "bool", {}),
     ("core/obs_time.py", "ObsTime.isLeapYear", "isLeapYear", {"year": "int"}, "bool", {}),
+    ("core/obs_time.py", "ObsTime.readUnixTime", "ObsTime_readUnixTime", {"elapsed_seconds": "float"}, "object[ObsTime]",
+     {"sec": "int", "year": "int", "month": "int"}),
+    ("core/obs_time.py", "ObsTime.__sub__", "ObsTime_sub", {"self": {"toAbsTime()": "float"}, "time": {"toAbsTime()": "float"}}, "float", {}),
+    ("core/obs_time.py", "ObsTime.toAbsTime", "ObsTime_toAbsTime",
+     {"self": {"year": "int", "month": "int", "day": "int", "hour": "int", "min": "int", "sec": "int", "ms": "int"}}, "float",
+     {"seconds": "int"}),
+    ("core/track.py", "Track.__getInsertionIndex", "Track_getInsertionIndex", {"self": "objlist[ObsKey]", "timestamp": "int"}, "int",
+     {"id": "int"}),
     ("core/spatial_index.py", "SpatialIndex.__getCell", "SpatialIndex_getCell",
      {"self": {"xmin": "float", "xmax": "float", "ymin": "float", "ymax": "float", "dX": "float", "dY": "float",
                "csize": "int", "lsize": "int"},
       "coord": {"getX()": "float", "getY()": "float"}}, "optional[tuple[float,float]]", {}),
+    ("core/spatial_index.py", "SpatialIndex.__cellsCrossSegment", "SpatialIndex_cellsCrossSegment",
+     {"self": {"csize": "int", "lsize": "int"}, "coord1": "list[float]", "coord2": "list[float]"}, "list[tuple[int,int]]",
+     {"CELLS": "list[tuple[int,int]]"}, {"imports": {"isSegmentIntersects": "util/geometry.py"}}),
     ("core/spatial_index.py", "SpatialIndex.groundDistanceToUnits", "SpatialIndex_groundDistanceToUnits",
      {"self": {"dX": "float", "dY": "float"}, "distance": "float"}, "int", {}),
     ("core/obs_coords.py", "GeoCoords.toECEFCoords", "GeoCoords_toECEFCoords",
@@ -112,14 +192,101 @@ WHITELIST = [
      {"self": {"X": "float", "Y": "float", "Z": "float"}, "base": {"toECEFCoords()": "object[ECEFCoords]"}}, "object[ENUCoords]", {}),
     ("core/obs_coords.py", "ENUCoords.toECEFCoords", "ENUCoords_toECEFCoords",
      {"self": {"E": "float", "N": "float", "U": "float"}, "base": {"toECEFCoords()": "object[ECEFCoords]"}}, "object[ECEFCoords]", {}),
+    ("core/obs_coords.py", "ENUCoords.getX", "ENUCoords_getX", {"self": {"__class__": "ENUCoords", "E": "float", "N": "float", "U": "float"}}, "float", {}),
+    ("core/obs_coords.py", "ENUCoords.getY", "ENUCoords_getY", {"self": {"__class__": "ENUCoords", "E": "float", "N": "float", "U": "float"}}, "float", {}),
+    ("core/obs_coords.py", "ENUCoords.getZ", "ENUCoords_getZ", {"self": {"__class__": "ENUCoords", "E": "float", "N": "float", "U": "float"}}, "float", {}),
     ("core/obs_coords.py", "ENUCoords.__sub__", "ENUCoords_sub", {"self": {"__class__": "ENUCoords", "E": "float", "N": "float", "U": "float"}, "p": {"__class__": "ENUCoords", "E": "float", "N": "float", "U": "float"}}, "object[ENUCoords]", {}),
     ("core/obs_coords.py", "ENUCoords.norm2D", "ENUCoords_norm2D", {"self": {"__class__": "ENUCoords", "E": "float", "N": "float"}}, "float", {}),
     ("core/obs_coords.py", "ENUCoords.distance2DTo", "ENUCoords_distance2DTo", {"self": {"__class__": "ENUCoords", "E": "float", "N": "float", "U": "float"}, "point": {"__class__": "ENUCoords", "E": "float", "N": "float", "U": "float"}}, "float", {}),
+    ("core/obs.py", "Obs.distance2DTo", "Obs_distance2DTo",
+     {"self": {"position": "object[ENUCoords]"}, "obs": {"position": "object[ENUCoords]"}}, "float", {},
+     {"assume_noop": ["Obs.__check_call_geom1"]}),
+    ("algo/analytics.py", "ds", "analytics_ds", {"track": "objlist[Obs]", "i": "int"}, "float", {}),
+    ("algo/analytics.py", "speed", "analytics_speed", {"track": "objlist[Obs]", "i": "int"}, "float", {}, {"imports": {"NAN": "core/utils.py"}}),
+    ("algo/interpolation.py", "prepareTimeSampling", "prepareTimeSampling_number",
+     {"input": "float", "tini": "float", "tfin": "float"}, "list[float]", {"output": "list[float]"}),
+    ("algo/interpolation.py", "prepareTimeSampling", "prepareTimeSampling_list",
+     {"input": "list[record[AbsTime]]", "tini": "float", "tfin": "float"}, "list[float]", {"output": "list[float]"}),
+    ("algo/interpolation.py", "prepareTimeSampling", "prepareTimeSampling_track",
+     {"input": "objlist[Obs]", "tini": "float", "tfin": "float"}, "list[float]", {"output": "list[float]"}),
+    ("algo/interpolation.py", "__resampleSpatial", "resampleSpatial", {"track": "objlist[Obs]", "ds": "float"}, "objlist[Obs]",
+     {"S": "list[float]", "running_id": "int"},
+     {"make": {"Obs(ENUCoords(_, _, _), ObsTime.readUnixTime(_))": "Obs"}, "assume_identity_methods": ["copy"],
+      "assume_noop_stmts": ["interp_points[0].features = []"], "result_call": "track.setObsList"}),
+    ("algo/interpolation.py", "__resampleTemporal", "resampleTemporal_number", {"track": "objlist[Obs]", "reference": "float"}, "objlist[Obs]",
+     {"T": "list[float]", "interp_points": "objlist[Obs]", "running_id": "int"},
+     {"make": {"Obs(ENUCoords(_, _, _), ObsTime.readUnixTime(_))": "Obs"}, "result_call": "track.setObsList",
+      "variants": {"prepareTimeSampling": "prepareTimeSampling_number"}}),
+    ("algo/interpolation.py", "__resampleTemporal", "resampleTemporal_list", {"track": "objlist[Obs]", "reference": "list[record[AbsTime]]"}, "objlist[Obs]",
+     {"T": "list[float]", "interp_points": "objlist[Obs]", "running_id": "int"},
+     {"make": {"Obs(ENUCoords(_, _, _), ObsTime.readUnixTime(_))": "Obs"}, "result_call": "track.setObsList",
+      "variants": {"prepareTimeSampling": "prepareTimeSampling_list"}}),
+    ("algo/interpolation.py", "__resampleTemporal", "resampleTemporal_track", {"track": "objlist[Obs]", "reference": "objlist[Obs]"}, "objlist[Obs]",
+     {"T": "list[float]", "interp_points": "objlist[Obs]", "running_id": "int"},
+     {"make": {"Obs(ENUCoords(_, _, _), ObsTime.readUnixTime(_))": "Obs"}, "result_call": "track.setObsList",
+      "variants": {"prepareTimeSampling": "prepareTimeSampling_track"}}),
+    ("core/utils.py", "isnan", "isnan", {"number": "float"}, "bool", {}),
+    ("core/utils.py", "co_sum", "co_sum", {"tarray": "list[float]"}, "float", {"somme": "float"}, {"assume_identity": ["listify"]}),
+    ("core/utils.py", "co_min", "co_min", {"tarray": "list[float]"}, "float", {}, {"assume_identity": ["listify"]}),
+    ("core/utils.py", "co_max", "co_max", {"tarray": "list[float]"}, "float", {}, {"assume_identity": ["listify"]}),
+    ("core/utils.py", "co_count", "co_count", {"tarray": "list[float]"}, "int", {"count": "int"}, {"assume_identity": ["listify"]}),
+    ("core/utils.py", "co_avg", "co_avg", {"tarray": "list[float]"}, "float", {"mean": "float", "count": "int"},
+     {"assume_identity": ["listify"]}),
+    ("core/utils.py", "co_median", "co_median", {"tarray": "list[float]"}, "float",
+     {"tarray2": "list[float]", "tab_sort": "list[float]"}, {"assume_identity": ["listify"]}),
     ("core/raster.py", "Raster.getCell", "Raster_getCell",
      {"self": {"xmin": "float", "xmax": "float", "ymin": "float", "ymax": "float", "resolution": "tuple[float,float]",
                "nrow": "int", "ncol": "int"},
       "coord": {"getX()": "float", "getY()": "float"}}, "optional[tuple[int,int]]", {}),
 ]
+
+# RECORD VIEWS: how an object that is only READ (an element of a track's observation list) is seen. Each entry is one
+# DECLARED pure access path (attributes and argument-less accessor calls, e.g. "position", "timestamp.toAbsTime()") with its
+# type; the object is the tuple of these, in this order (an `object[C]` component is the attributes of C in constructor order, a
+# `record[V]` component the components of view V). "__class__" = (file, class) whose methods a method call / `-` on the object
+# is resolved to, statically (ASSUMED: the run-time object is of that class or behaves like it on the declared paths).
+# A parameter of type `objlist[V]` is a list of such objects with the observation-list API of `Track`:
+#   X.getObs(e) / X[e]: element e (Python indexing, IndexError);  X.getFirstObs(): X[0];  X.getLastObs(): X[len - 1];
+#   X.size() / len(X): the length.   (ASSUMED of the run-time object: these are plain list accesses, as in core/track.py.)
+VIEWS = {
+    "Obs": {"__class__": ("core/obs.py", "Obs"), "position": "object[ENUCoords]", "timestamp": "record[AbsTime]"},
+    "AbsTime": {"__class__": ("core/obs_time.py", "ObsTime"), "toAbsTime()": "float"},
+    # ORDER ABSTRACTION: an observation of which only the timestamp is read, and only COMPARED (`<`, `<=`, `>`): the ObsTime is
+    # declared to be an integer key and its rich comparisons the integer ones (that ObsTime's field-wise __lt__/__gt__/__le__
+    # agree with the order of the instants is C03's theorems `lt_iff` / `gt_iff` / `le_iff`, not re-proved by the tie)
+    "ObsKey": {"__class__": ("core/obs.py", "Obs"), "timestamp": "int"},
+}
+REG = {}    # path -> Unit of the current run (classes and functions are looked up across the whitelisted files)
+
+
+def find_class_unit(cls):
+    """the unique registered unit that defines class `cls` at module level"""
+    hits = [u for u in REG.values() if u.parse() and any(isinstance(n, ast.ClassDef) and n.name == cls for n in u.tree.body)]
+    return hits[0] if len(hits) == 1 else None
+
+
+def view_components(v):
+    """[(path, type)] of view v"""
+    if v not in VIEWS:
+        raise Unsupported("no record view %s" % v)
+    return [(k, parse_ty(t)) for k, t in VIEWS[v].items() if k != "__class__"]
+
+
+def flat_types(t):
+    """leaf types of a value of type t as it is laid out in a tuple"""
+    if isinstance(t, tuple) and t[0] == "Obj":
+        u = find_class_unit(t[1])
+        info = u.ctor_info_local(t[1]) if u is not None else None
+        if info is None:
+            raise Unsupported("class %s has no constructor of the accepted form (in the whitelisted files)" % t[1])
+        return [info[1][f] for f in info[0]]
+    if isinstance(t, tuple) and t[0] == "Rec":
+        out = []
+        for _, ct in view_components(t[1]):
+            out += flat_types(ct)
+        return out
+    return [t]
+
 
 # uninterpreted functions passed as parameters of the generated definition: name -> (arity, result type, Lean type)
 MATH_FUNS = {"sqrt": (1, "F", "α → α"), "sin": (1, "F", "α → α"), "cos": (1, "F", "α → α"), "tan": (1, "F", "α → α"),
@@ -127,8 +294,10 @@ MATH_FUNS = {"sqrt": (1, "F", "α → α"), "sin": (1, "F", "α → α"), "cos":
              "floor": (1, "I", "α → Int"),      # math.floor
              "trunc": (1, "I", "α → Int"),      # int(x) on a float: truncation toward zero
              "pi": (0, "F", "α"),               # math.pi
-             "pow": (2, "F", "α → α → α")}      # x ** y and pow(x, y) with a float operand (C's pow)
-MATH_ORDER = ["pi", "sqrt", "sin", "cos", "tan", "atan", "atan2", "exp", "log", "pow", "floor", "trunc"]
+             "pow": (2, "F", "α → α → α"),      # x ** y and pow(x, y) with a float operand (C's pow)
+             "nan": (0, "F", "α"),              # float("nan") (and a module constant defined so)
+             "inf": (0, "F", "α")}              # float("inf"), a literal that overflows to infinity (1e400)
+MATH_ORDER = ["nan", "inf", "pi", "sqrt", "sin", "cos", "tan", "atan", "atan2", "exp", "log", "pow", "floor", "trunc"]
 LEAN_KEYWORDS = {"«", "at", "from", "end", "fun", "in", "do", "then", "else", "if", "let", "have", "show", "by", "match",
                  "with", "where", "def", "theorem", "open", "section", "namespace", "variable", "instance", "class",
                  "structure", "import", "Type", "Prop", "Sort", "forall", "exists", "using", "this", "mut", "for",
@@ -153,10 +322,16 @@ def parse_ty(s):
         return {"float": "F", "int": "I", "bool": "B"}[s]
     if s.startswith("object[") and s.endswith("]"):
         return ("Obj", s[7:-1])
+    if s.startswith("record[") and s.endswith("]"):
+        return ("Rec", s[7:-1])
+    if s.startswith("objlist[") and s.endswith("]"):
+        return ("L", ("Rec", s[8:-1]))
     if s.startswith("list[") and s.endswith("]"):
         return ("L", parse_ty(s[5:-1]))
     if s.startswith("optional[") and s.endswith("]"):
         return ("O", parse_ty(s[9:-1]))
+    if s.startswith("unbound[") and s.endswith("]"):
+        return ("U", parse_ty(s[8:-1]))      # a local that may be read before it is assigned (only in `locals`)
     if s.startswith("tuple[") and s.endswith("]"):
         parts, depth, cur = [], 0, ""
         for ch in s[6:-1]:
@@ -181,10 +356,13 @@ def lean_ty(t):
         return "Bool"
     if t[0] == "L":
         return "(List %s)" % lean_ty(t[1])
-    if t[0] == "O":
+    if t[0] in ("O", "U"):
         return "(Option %s)" % lean_ty(t[1])
     if t[0] == "T":
         return "(" + " × ".join(lean_ty(x) for x in t[1]) + ")"
+    if t[0] in ("Rec", "Obj"):
+        fl = flat_types(t)
+        return lean_ty(fl[0]) if len(fl) == 1 else "(" + " × ".join(lean_ty(x) for x in fl) + ")"
     raise ValueError(t)
 
 
@@ -195,8 +373,10 @@ def uses_alpha(t):
         return False
     if isinstance(t, tuple) and t[0] == "Obj":
         return True
+    if isinstance(t, tuple) and t[0] == "Rec":
+        return any(uses_alpha(x) for x in flat_types(t))
     if isinstance(t, tuple):
-        if t[0] in ("L", "O"):
+        if t[0] in ("L", "O", "U"):
             return uses_alpha(t[1])
         return any(uses_alpha(x) for x in t[1])
     return False
@@ -212,18 +392,79 @@ def tuple_proj(term, i, n):
 
 RESERVED = {"decide", "Int", "Nat", "List", "Option", "Bool", "Py", "some", "none", "true", "false", "Type", "TV",
             # tokens the engine greps for in every Lean source
-            "sorry", "admit", "native_decide", "bv_decide", "implemented_by", "unsafe", "axiom", "maxHeartbeats"} | set(MATH_FUNS)
+            "fuel", "sorry", "admit", "native_decide", "bv_decide", "implemented_by", "unsafe", "axiom", "maxHeartbeats"} | set(MATH_FUNS)
 
 
 def ident(name):
     """a Python parameter / local as a Lean binder: the same name; names the generated text itself uses are refused"""
+    if name in MATH_FUNS or name == "fuel":
+        return name + "'"       # a Python name equal to a parameter name of the generated code: primed (no Python name has a prime)
     if name in RESERVED or name in {e[2] for e in WHITELIST}:
         raise Unsupported("python name %s would capture a name used by the generated code" % name)
     if name in LEAN_KEYWORDS:
         return "«%s»" % name
-    if name.startswith("py_t"):
+    if name.startswith("py_"):
         raise Unsupported("python name %s collides with the translator's temporaries" % name)
     return name
+
+
+# ------------------------------------- continuation contexts (loops) ------------------------------------
+class KFun:
+    """what `return`, falling off the end, `break`, `continue` mean at function level"""
+    def __init__(self, tr):
+        self.tr = tr
+
+    def end(self, env):
+        if isinstance(self.tr.ret, tuple) and self.tr.ret[0] == "O":
+            return "(.ok none)"
+        raise Unsupported("a path falls off the end of the function (returns None) but the declared return type is not optional")
+
+    def ret(self, term):
+        return "(.ok %s)" % term
+
+    def brk(self, node, env):
+        bad(node, "break outside a loop")
+
+    def cont(self, node, env):
+        bad(node, "continue outside a loop")
+
+
+class KJoin:
+    """inside the branches of an `if` translated with a join: falling off the end yields the tuple of the joined variables;
+    return / break / continue cannot occur (checked before the rule is chosen)"""
+    def __init__(self, tr, state):
+        self.tr, self.state = tr, state
+
+    def end(self, env):
+        return "(.ok %s)" % self.tr.pack(self.state, env)
+
+    def ret(self, term):
+        raise Unsupported("internal: return inside a joined if")
+
+    def brk(self, node, env):
+        bad(node, "internal: break inside a joined if")
+
+    def cont(self, node, env):
+        bad(node, "internal: continue inside a joined if")
+
+
+class KLoop:
+    """inside a loop body: the end of the body and `continue` give `.cont state`, `break` gives `.brk state`,
+    `return e` gives `.ret e`"""
+    def __init__(self, tr, state):
+        self.tr, self.state = tr, state
+
+    def end(self, env):
+        return "(.ok (Py.Ctl.cont %s))" % self.tr.pack(self.state, env)
+
+    def ret(self, term):
+        return "(.ok (Py.Ctl.ret %s))" % term
+
+    def brk(self, node, env):
+        return "(.ok (Py.Ctl.brk %s))" % self.tr.pack(self.state, env)
+
+    def cont(self, node, env):
+        return "(.ok (Py.Ctl.cont %s))" % self.tr.pack(self.state, env)
 
 
 # --------------------------------------------- one function ----------------------------------------------
@@ -237,12 +478,23 @@ class Val:
 class FnTranslator:
     def __init__(self, unit, entry):
         self.unit = unit
-        self.path, self.pyname, self.lean, params, ret, locs = entry
+        self.path, self.pyname, self.lean, params, ret, locs = entry[:6]
+        self.opts = entry[6] if len(entry) > 6 else {}
+        self.allow_rec = False
+        self.uses_fuel = False   # the function (or one it calls) has a `while` loop: extra parameter `fuel : Nat`
+        self.nloop = 0
         # a parameter declared with a dict is an object of which only the listed attributes ("name") and argument-less
         # pure accessor methods ("name()") are read: each becomes one Lean parameter `<param>_<name>`
         self.params = {}
         self.records = {}
         self.objclass = {}
+        # python KIND of a parameter, from the declared type string: decides `isinstance` tests on it
+        self.kind = {}
+        for k, v in params.items():
+            if isinstance(v, str):
+                vs = v.replace(" ", "")
+                self.kind[k] = ("track" if vs.startswith("objlist[") else "list" if vs.startswith("list[") else
+                                "number" if vs == "float" else "int" if vs == "int" else "bool" if vs == "bool" else "other")
         for k, v in params.items():
             if isinstance(v, dict):
                 self.records[k] = {f: parse_ty(t) for f, t in v.items() if f != "__class__"}
@@ -314,6 +566,8 @@ class FnTranslator:
             bad(e, "a string where a value is needed (strings are only accepted as arguments of print)")
         if isinstance(v.ty, tuple) and v.ty[0] == "Obj":
             bad(e, "an object where a value is needed (an object can only be bound to a local name)")
+        if isinstance(v.ty, tuple) and v.ty[0] == "Rec" and not self.allow_rec:
+            bad(e, "a record where a value is needed (a record can only be bound to a local name or passed to a method of its class)")
         return v
 
     def expr_s(self, e, env, binds):
@@ -327,7 +581,10 @@ class FnTranslator:
                     bad(e, "negative constant")
                 return Val("(%d : Int)" % v, "I", lit=v)
             if type(v) is float:
-                if v != v or v in (float("inf"), float("-inf")):
+                if v == float("inf"):
+                    self.math.add("inf")      # a literal that overflows (1e400): +infinity
+                    return Val("inf", "F")
+                if v != v or v == float("-inf"):
                     bad(e, "non-finite float literal")
                 self.need("OfScientific")
                 r = repr(v)
@@ -341,6 +598,13 @@ class FnTranslator:
             if e.id not in env:
                 if e.id not in self.assigned:
                     c = self.unit.constant(e.id)
+                    if c is None and e.id in self.opts.get("imports", {}):
+                        # DECLARED cross-file constant: bound here by exactly one `from … import NAME`, defined in that file
+                        other = self.unit.registry.get(self.opts["imports"][e.id])
+                        bound = [n for n in self.unit.tree.body if isinstance(n, ast.ImportFrom)
+                                 and any(a.name == e.id and a.asname is None for a in n.names)]
+                        if other is not None and other.parse() and len(bound) == 1:
+                            c = other.constant(e.id)
                     if c is not None:
                         b = []
                         v = self.expr(c, {}, b)      # a module constant: literal arithmetic only
@@ -350,6 +614,12 @@ class FnTranslator:
                 bad(e, "name %s is not a parameter, a module constant or a local bound on every path to here" % e.id)
             if isinstance(env[e.id], tuple) and env[e.id][0] in ("R", "Obj"):
                 bad(e, "object %s used as a value (only its attributes can be read)" % e.id)
+            if isinstance(env[e.id], tuple) and env[e.id][0] == "U":
+                t = self.tmp()                  # UnboundLocalError when not yet assigned
+                binds.append((t, "(Py.getBound %s)" % ident(e.id)))
+                return Val(t, env[e.id][1])
+            if isinstance(env[e.id], tuple) and env[e.id][0] == "L" and env[e.id][1] is None:
+                bad(e, "list %s has no element type yet: declare it in the signature" % e.id)
             return Val(ident(e.id), env[e.id])
         if isinstance(e, ast.UnaryOp):
             v = self.expr(e.operand, env, binds)
@@ -400,6 +670,14 @@ class FnTranslator:
             if len(vs) < 2:
                 bad(e, "tuple of fewer than two components")
             return Val("(" + ", ".join(v.term for v in vs) + ")", ("T", tuple(v.ty for v in vs)))
+        if isinstance(e, ast.List) and e.elts:
+            sts = [self.static_type(x, env) for x in e.elts]
+            if any(isinstance(t, tuple) and t[0] == "Rec" for t in sts) or (self.opts.get("assume_identity_methods") and all(
+                    isinstance(x, ast.Call) and isinstance(x.func, ast.Attribute) and x.func.attr in self.opts["assume_identity_methods"] for x in e.elts)):
+                vs = [self.expr_s(x, env, binds) for x in e.elts]
+                if not all(isinstance(v.ty, tuple) and v.ty[0] == "Rec" and v.ty == vs[0].ty for v in vs):
+                    bad(e, "list display mixing records and other values")
+                return Val("[" + ", ".join(v.term for v in vs) + "]", ("L", vs[0].ty))
         if isinstance(e, ast.List):
             vs = [self.expr(x, env, binds) for x in e.elts]
             if not vs:
@@ -409,11 +687,33 @@ class FnTranslator:
             if all(v.ty in ("F", "I") for v in vs):
                 return Val("[" + ", ".join(self.as_float(x, v) for x, v in zip(e.elts, vs)) + "]", ("L", "F"))
             bad(e, "list display of non-numbers")
+        if isinstance(e, ast.Call) and self.opts.get("make"):
+            r = self.make_record(e, env, binds)
+            if r is not None:
+                return r
+        if isinstance(e, ast.Call) and isinstance(e.func, ast.Attribute) and not e.args and not e.keywords \
+                and e.func.attr in self.opts.get("assume_identity_methods", ()):
+            rt = self.static_type(e.func.value, env)
+            if isinstance(rt, tuple) and rt[0] == "Rec":
+                # DECLARED: this argument-less method of a record returns (a copy of) the record — records are values here
+                return self.expr_s(e.func.value, env, binds)
+        if isinstance(e, (ast.Attribute, ast.Call, ast.Subscript)):
+            r = self.rec_access(e, env, binds)
+            if r is not None:
+                return r
         if isinstance(e, ast.Subscript):
             v = self.expr(e.value, env, binds)
             k = e.slice
             if not (isinstance(k, ast.Constant) and type(k.value) is int and k.value >= 0):
-                bad(e, "subscript that is not a literal >= 0")
+                # computed index: Python's rule for negative indices, IndexError out of range
+                if isinstance(k, (ast.Slice, ast.Tuple)) or not (isinstance(v.ty, tuple) and v.ty[0] == "L"):
+                    bad(e, "subscript that is not a literal >= 0 on a tuple / a slice")
+                iv = self.expr(k, env, binds)
+                if iv.ty != "I":
+                    bad(e, "list index that is not an int")
+                t = self.tmp()
+                binds.append((t, "(Py.getIdx %s %s)" % (v.term, iv.term)))
+                return Val(t, v.ty[1])
             if isinstance(v.ty, tuple) and v.ty[0] == "L":
                 t = self.tmp()
                 binds.append((t, "(Py.getItem %s %d)" % (v.term, k.value)))
@@ -424,14 +724,28 @@ class FnTranslator:
                 return Val(tuple_proj(v.term, k.value, len(v.ty[1])), v.ty[1][k.value])
             bad(e, "subscript of a %s" % (v.ty,))
         if isinstance(e, ast.Attribute):
-            if isinstance(e.value, ast.Name) and e.value.id == "math" and "math" not in env and e.attr == "pi":
-                self.math.add("pi")
-                return Val("pi", "F")
+            if isinstance(e.value, ast.Name) and e.value.id == "math" and "math" not in env and e.attr in ("pi", "inf", "nan"):
+                self.math.add(e.attr)
+                return Val(e.attr, "F")
+            if isinstance(e.value, ast.Name) and e.value.id not in env and e.value.id not in self.assigned:
+                c = self.unit.class_constant(e.value.id, e.attr)
+                if c is not None:
+                    b = []
+                    v = self.expr(c, {}, b)          # a class-level constant: literal arithmetic / list of literals
+                    if b:
+                        bad(e, "class constant %s.%s is not plain literal arithmetic" % (e.value.id, e.attr))
+                    return v
             if isinstance(e.value, ast.Name) and env.get(e.value.id) == ("R", e.value.id):
                 fields = self.records[e.value.id]
                 if e.attr not in fields:
                     bad(e, "attribute %s.%s is not declared in the signature" % (e.value.id, e.attr))
-                return Val(ident(e.value.id + "_" + e.attr), fields[e.attr])
+                ft = fields[e.attr]
+                if isinstance(ft, tuple) and ft[0] == "Obj":
+                    cf = self.unit.ctor_fields(ft[1])
+                    if cf is None:
+                        bad(e, "class %s has no constructor of the accepted form" % ft[1])
+                    return Val("(" + ", ".join(ident(e.value.id + "_" + e.attr + "_" + g) for g in cf) + ")", ft)
+                return Val(ident(e.value.id + "_" + e.attr), ft)
             if isinstance(e.value, ast.Name) and isinstance(env.get(e.value.id), tuple) and env[e.value.id][0] == "Obj":
                 key = e.value.id + "." + e.attr
                 if key not in env:
@@ -455,8 +769,15 @@ class FnTranslator:
         if isinstance(e.op, (ast.Sub, ast.Add)) and self.is_objexpr(e.left, env):
             # operator of the left operand's class (static resolution; __r*__ fallbacks are not in the subset)
             cls, terms = self.obj_terms(e.left, env, binds)
-            callee = self.unit.lookup(cls + "." + ("__sub__" if isinstance(e.op, ast.Sub) else "__add__"), self)
+            callee = self.lookup_method(e, ("Obj", cls), "__sub__" if isinstance(e.op, ast.Sub) else "__add__")
             return self.call_translated(e, callee, [("obj", cls, terms), e.right], env, binds)
+        if isinstance(e.op, (ast.Sub, ast.Add)):
+            rt = self.static_type(e.left, env)
+            if isinstance(rt, tuple) and rt[0] == "Rec":
+                # operator of the class of the record's view (e.g. ObsTime.__sub__ on two timestamps)
+                recv = self.expr_s(e.left, env, binds)
+                callee = self.lookup_method(e, rt, "__sub__" if isinstance(e.op, ast.Sub) else "__add__")
+                return self.call_translated(e, callee, [("rec", recv), e.right], env, binds)
         a = self.expr_s(e.left, env, binds)
         b = self.expr_s(e.right, env, binds)
         if (a.ty == "S") != (b.ty == "S"):
@@ -464,6 +785,8 @@ class FnTranslator:
         op = e.op
         if a.ty == "S" and b.ty == "S" and isinstance(op, ast.Add):
             return Val(None, "S")
+        if isinstance(op, ast.Mult) and a.ty == "B" and b.ty == "I":
+            return Val("((if %s then (1 : Int) else (0 : Int)) * %s)" % (a.term, b.term), "I")      # True == 1, False == 0
         if a.ty not in ("F", "I") or b.ty not in ("F", "I"):
             if isinstance(op, (ast.BitAnd, ast.BitOr)) and a.ty == "B" and b.ty == "B":
                 return Val("(%s %s %s)" % (a.term, "&&" if isinstance(op, ast.BitAnd) else "||", b.term), "B")
@@ -476,7 +799,13 @@ class FnTranslator:
             return Val("(%s %s %s)" % (self.as_float(e.left, a), sym, self.as_float(e.right, b)), "F")
         if isinstance(op, ast.Pow):
             if a.ty == "I" and b.ty == "I":
-                bad(e, "** on two ints")
+                if b.lit is not None and b.lit >= 0:
+                    return Val("(%s ^ (%d : Nat))" % (a.term, b.lit), "I")
+                # int ** int is an int only for a non-negative exponent (Python returns a FLOAT for a negative one: a value
+                # the translator cannot type); Py.ipow gives the error value `Err.type` there — a tie must exclude that case
+                t = self.tmp()
+                binds.append((t, "(Py.ipow %s %s)" % (a.term, b.term)))
+                return Val(t, "I")
             self.math.add("pow")
             return Val("(pow %s %s)" % (self.as_float(e.left, a), self.as_float(e.right, b)), "F")
         if isinstance(op, ast.Div):
@@ -489,6 +818,14 @@ class FnTranslator:
             t = self.tmp()
             binds.append((t, "(Py.fdiv %s %s)" % (x, y)))
             return Val(t, "F")
+        if isinstance(op, ast.RShift):
+            if not (a.ty == "I" and b.ty == "I"):
+                bad(e, ">> on non-ints")
+            if b.lit is not None and b.lit >= 0:
+                return Val("(Int.shiftRight %s %d)" % (a.term, b.lit), "I")
+            t = self.tmp()
+            binds.append((t, "(Py.ishr %s %s)" % (a.term, b.term)))      # ValueError on a negative count
+            return Val(t, "I")
         if isinstance(op, (ast.Mod, ast.FloorDiv)):
             if not (a.ty == "I" and b.ty == "I"):
                 bad(e, "% or // on floats")
@@ -501,6 +838,13 @@ class FnTranslator:
         bad(e, "operator %s" % type(op).__name__)
 
     def cmp2(self, node, op, a, b, anode, bnode):
+        if isinstance(op, (ast.In, ast.NotIn)):
+            # membership in a list of ints / of tuples of ints (decidable equality is Python's == there)
+            def discrete(t):
+                return t in ("I", "B") or (isinstance(t, tuple) and t[0] == "T" and all(discrete(x) for x in t[1]))
+            if not (isinstance(b.ty, tuple) and b.ty[0] == "L" and b.ty[1] == a.ty and discrete(a.ty)):
+                bad(node, "`in` is only accepted for an int / a tuple of ints in a list of the same")
+            return ("(Py.contains %s %s)" if isinstance(op, ast.In) else "(!Py.contains %s %s)") % (b.term, a.term)
         if a.ty == "I" and b.ty == "I":
             x, y = a.term, b.term
             if isinstance(op, ast.Eq):
@@ -540,8 +884,106 @@ class FnTranslator:
         parts = [self.cmp2(e, op, vals[i], vals[i + 1], nodes[i], nodes[i + 1]) for i, op in enumerate(e.ops)]
         return Val(parts[0] if len(parts) == 1 else "(%s && %s)" % tuple(parts), "B")
 
+    @staticmethod
+    def match_pattern(pat, node, holes):
+        """structural match of an expression against a pattern with holes `_`; the hole sub-expressions are collected in order"""
+        if isinstance(pat, ast.Name) and pat.id == "_":
+            holes.append(node)
+            return True
+        if type(pat) is not type(node):
+            return False
+        for fld in pat._fields:
+            if fld == "ctx":
+                continue
+            a, b = getattr(pat, fld), getattr(node, fld)
+            if isinstance(a, list):
+                if not isinstance(b, list) or len(a) != len(b):
+                    return False
+                for x, y in zip(a, b):
+                    if isinstance(x, ast.AST):
+                        if not FnTranslator.match_pattern(x, y, holes):
+                            return False
+                    elif x != y:
+                        return False
+            elif isinstance(a, ast.AST):
+                if not isinstance(b, ast.AST) or not FnTranslator.match_pattern(a, b, holes):
+                    return False
+            elif a != b:
+                return False
+        return True
+
+    def make_record(self, e, env, binds):
+        """DECLARED constructor pattern {"make": {"Obs(ENUCoords(_, _, _), ObsTime.readUnixTime(_))": "Obs"}}: an expression of
+        exactly this shape builds a record of that view whose leaves are the hole expressions, in order"""
+        for pat, view in self.opts.get("make", {}).items():
+            holes = []
+            if self.match_pattern(ast.parse(pat, mode="eval").body, e, holes):
+                leaves = flat_types(("Rec", view))
+                if len(leaves) != len(holes):
+                    bad(e, "pattern %s has %d holes, view %s has %d leaves" % (pat, len(holes), view, len(leaves)))
+                terms = []
+                for h, lt in zip(holes, leaves):
+                    v = self.expr(h, env, binds)
+                    terms.append(self.coerce(h, v, lt))
+                return Val(terms[0] if len(terms) == 1 else "(" + ", ".join(terms) + ")", ("Rec", view))
+        return None
+
+    def static_bool(self, e, env):
+        """True / False when e is built from isinstance tests on declared parameters (with not / and / or); None otherwise"""
+        if isinstance(e, ast.UnaryOp) and isinstance(e.op, ast.Not):
+            v = self.static_bool(e.operand, env)
+            return None if v is None else not v
+        if isinstance(e, ast.BoolOp):
+            def has_isinstance(n):
+                return any(isinstance(m, ast.Call) and isinstance(m.func, ast.Name) and m.func.id == "isinstance" for m in ast.walk(n))
+            if not all(has_isinstance(v) for v in e.values):
+                return None
+            v = self.boolop(e, env, [])
+            if v.term in ("true", "false"):
+                return v.term == "true"
+            vals = [self.static_bool(x, env) for x in e.values]
+            if any(x is None for x in vals):
+                return None
+            return all(vals) if isinstance(e.op, ast.And) else any(vals)
+        if isinstance(e, ast.Call):
+            return self.isinstance_test(e, env)
+        return None
+
+    def isinstance_test(self, e, env):
+        """`isinstance(p, C)` on a PARAMETER p that the function never rebinds, decided from p's declared kind:
+        list[..] is a `list`; objlist[..] is a `Track` (`tracklib.Track`); a declared float is "an int or a float": the test for
+        ONE of the two is refused, only the disjunction of both is accepted (true). Returns True / False / None (not of this form)."""
+        if not (isinstance(e, ast.Call) and isinstance(e.func, ast.Name) and e.func.id == "isinstance" and "isinstance" not in env
+                and len(e.args) == 2 and not e.keywords and isinstance(e.args[0], ast.Name)):
+            return None
+        x = e.args[0].id
+        if x not in self.kind or x in self.assigned:
+            bad(e, "isinstance of something that is not a never-rebound parameter with a declared kind")
+        cls = ast.unparse(e.args[1])
+        kind = self.kind[x]
+        if cls == "list":
+            return kind == "list"
+        if cls in ("Track", "tracklib.Track"):
+            return kind == "track"
+        if cls == "str":
+            return False if kind != "other" else bad(e, "isinstance(.., str) of an undeclared kind")
+        if cls in ("int", "float"):
+            if kind in ("list", "track"):
+                return False
+            if kind == "int":
+                return cls == "int"
+            bad(e, "isinstance(%s, %s) alone: a declared float is an int or a float" % (x, cls))
+        bad(e, "isinstance test against %s" % cls)
+
     def boolop(self, e, env, binds):
         is_and = isinstance(e.op, ast.And)
+        if not is_and and len(e.values) == 2 and all(
+                isinstance(v, ast.Call) and isinstance(v.func, ast.Name) and v.func.id == "isinstance" and len(v.args) == 2
+                and isinstance(v.args[0], ast.Name) for v in e.values) \
+                and e.values[0].args[0].id == e.values[1].args[0].id \
+                and {ast.unparse(v.args[1]) for v in e.values} == {"int", "float"} \
+                and self.kind.get(e.values[0].args[0].id) == "number" and e.values[0].args[0].id not in self.assigned:
+            return Val("true", "B")        # isinstance(p, int) or isinstance(p, float) on a declared number
         first = self.expr(e.values[0], env, binds)
         if first.ty != "B":
             bad(e, "and/or on a non-bool (truthiness is not in the subset)")
@@ -568,7 +1010,152 @@ class FnTranslator:
             return isinstance(env.get(node.id), tuple) and env[node.id][0] == "Obj"
         if isinstance(node, ast.BinOp) and isinstance(node.op, (ast.Sub, ast.Add)):
             return self.is_objexpr(node.left, env)
-        return False
+        t = self.static_type(node, env)
+        return isinstance(t, tuple) and t[0] == "Obj"
+
+    # ---- records (read-only objects seen through a declared VIEW) and observation lists
+    @staticmethod
+    def path_step(node):
+        """(segment, inner node) when node is `inner.attr` or `inner.accessor()`; None otherwise"""
+        if isinstance(node, ast.Attribute):
+            return node.attr, node.value
+        if isinstance(node, ast.Call) and not node.args and not node.keywords and isinstance(node.func, ast.Attribute):
+            return node.func.attr + "()", node.func.value
+        return None
+
+    def objlist_item(self, node, env):
+        """(list node, index node | int) when node is X.getObs(e) / X[e] / X.getFirstObs() / X.getLastObs() on an objlist X"""
+        def is_ol(n):
+            t = env.get(n.id) if isinstance(n, ast.Name) else None
+            return isinstance(t, tuple) and t[0] == "L" and isinstance(t[1], tuple) and t[1][0] == "Rec"
+        if isinstance(node, ast.Call) and isinstance(node.func, ast.Attribute) and not node.keywords and is_ol(node.func.value):
+            if node.func.attr == "getObs" and len(node.args) == 1:
+                return node.func.value, node.args[0]
+            if node.func.attr == "getFirstObs" and not node.args:
+                return node.func.value, 0
+            if node.func.attr == "getLastObs" and not node.args:
+                return node.func.value, -1
+        if isinstance(node, ast.Subscript) and is_ol(node.value) and not isinstance(node.slice, (ast.Slice, ast.Tuple)):
+            return node.value, node.slice
+        return None
+
+    def static_type(self, node, env):
+        """type of an object- / record-valued expression, decided from its syntax and the declarations (None: not one)"""
+        if isinstance(node, ast.Name):
+            t = env.get(node.id)
+            return t if isinstance(t, tuple) and t[0] in ("Rec", "Obj") else None
+        it = self.objlist_item(node, env)
+        if it is not None:
+            return env[it[0].id][1]
+        st = self.path_step(node)
+        if st is None:
+            return None
+        segs, inner = [st[0]], st[1]
+        while True:
+            if isinstance(inner, ast.Name) and env.get(inner.id) == ("R", inner.id):
+                t = self.records[inner.id].get(".".join(reversed(segs)))
+                return t if isinstance(t, tuple) and t[0] in ("Rec", "Obj") else None
+            t = self.static_type(inner, env) if (isinstance(inner, ast.Name) or self.objlist_item(inner, env) is not None) else None
+            if isinstance(t, tuple) and t[0] == "Rec":
+                comp = self.path_type(t, ".".join(reversed(segs)))
+                if comp is not None:
+                    return comp if isinstance(comp, tuple) and comp[0] in ("Rec", "Obj") else None
+            st = self.path_step(inner)
+            if st is None:
+                return None
+            segs.append(st[0])
+            inner = st[1]
+
+    def path_type(self, rt, path):
+        """type of the declared access path `path` from a record of type rt (through nested record views); None if undeclared"""
+        comps = dict(view_components(rt[1]))
+        if path in comps:
+            return comps[path]
+        segs = path.split(".")
+        for k in range(len(segs) - 1, 0, -1):
+            head = comps.get(".".join(segs[:k]))
+            if isinstance(head, tuple) and head[0] == "Rec":
+                return self.path_type(head, ".".join(segs[k:]))
+        return None
+
+    def rec_component(self, node, v, path):
+        """component `path` of the record value v (a Val of type ("Rec", view)); a path may go through a record-valued
+        component into its view (`timestamp.toAbsTime()` = component `timestamp`, then `toAbsTime()` of its view);
+        None if the path is not declared"""
+        segs = path.split(".")
+        for k in range(len(segs) - 1, 0, -1):
+            head = self.rec_component(node, v, ".".join(segs[:k])) if ".".join(segs[:k]) in dict(view_components(v.ty[1])) else None
+            if head is not None and isinstance(head.ty, tuple) and head.ty[0] == "Rec":
+                return self.rec_component(node, head, ".".join(segs[k:]))
+        comps = view_components(v.ty[1])
+        n = len(flat_types(v.ty))
+        off = 0
+        for pth, ct in comps:
+            k = len(flat_types(ct))
+            if pth == path:
+                if k == 1:
+                    return Val(tuple_proj(v.term, off, n), ct)
+                return Val("(" + ", ".join(tuple_proj(v.term, off + j, n) for j in range(k)) + ")", ct)
+            off += k
+        return None
+
+    def rec_access(self, e, env, binds):
+        """`root.path` where root is a record-valued expression (a local record, an element of an observation list) and path a
+        DECLARED access path of its view: the component. Returns None when e is not of that form."""
+        it = self.objlist_item(e, env)
+        if it is not None:
+            lst, idx = it
+            lt = env[lst.id]
+            t = self.tmp()
+            if idx == 0:
+                binds.append((t, "(Py.getIdx %s (0 : Int))" % ident(lst.id)))
+            elif idx == -1:
+                binds.append((t, "(Py.getIdx %s ((Py.len %s) - (1 : Int)))" % (ident(lst.id), ident(lst.id))))   # X[X.size() - 1]
+            else:
+                iv = self.expr(idx, env, binds)
+                if iv.ty != "I":
+                    bad(e, "observation index that is not an int")
+                binds.append((t, "(Py.getIdx %s %s)" % (ident(lst.id), iv.term)))
+            return Val(t, lt[1])
+        st = self.path_step(e)
+        if st is None:
+            return None
+        segs, inner = [st[0]], st[1]
+        while True:
+            t = self.static_type(inner, env) if (isinstance(inner, ast.Name) or self.objlist_item(inner, env) is not None) else None
+            if isinstance(t, tuple) and t[0] == "Rec":
+                path = ".".join(reversed(segs))
+                if self.path_type(t, path) is not None:
+                    root = self.expr_s(inner, env, binds) if not isinstance(inner, ast.Name) else Val(ident(inner.id), t)
+                    return self.rec_component(e, root, path)
+            st = self.path_step(inner)
+            if st is None:
+                return None
+            segs.append(st[0])
+            inner = st[1]
+
+    def view_class(self, view):
+        """(unit, class name) the methods of a record of this view are resolved to"""
+        path, cls = VIEWS[view]["__class__"]
+        u = REG.get(path)
+        if u is None or not u.parse():
+            bad(None, "the class of view %s is not in a whitelisted file" % view)
+        return u, cls
+
+    def lookup_method(self, node, ty, name):
+        """the translated method `name` of the class of an object (constructor class) / a record (class of its view)"""
+        if ty[0] == "Rec":
+            u, cls = self.view_class(ty[1])
+        else:
+            cls = ty[1]
+            u = self.unit if (self.unit.parse() and any(isinstance(n, ast.ClassDef) and n.name == cls for n in self.unit.tree.body)) \
+                else find_class_unit(cls)
+            if u is None:
+                bad(node, "class %s is not defined in a whitelisted file" % cls)
+        callee = u.lookup(cls + "." + name, None)
+        if callee is not None and u is not self.unit and module_name(u.path) not in self.unit.imports:
+            self.unit.imports.append(module_name(u.path))
+        return callee
 
     def obj_terms(self, node, env, binds):
         """class and {attribute: Lean term} of an object-valued expression"""
@@ -594,6 +1181,27 @@ class FnTranslator:
         args = []
         for a, (pn, pt) in zip(actuals, callee.params.items()):
             if pn in callee.records:
+                if isinstance(a, ast.AST) and not self.is_objexpr(a, env):
+                    rt = self.static_type(a, env)
+                    if isinstance(rt, tuple) and rt[0] == "Rec":
+                        a = ("rec", self.expr_s(a, env, binds))
+                if isinstance(a, tuple) and a[0] == "rec":
+                    # a record passed where the callee declares the attributes / accessors it reads: each must be a declared
+                    # path of the record's view, with the same type
+                    if pn in callee.objclass:
+                        bad(node, "argument %s of %s: a record where an instance of %s is declared" % (pn, callee.pyname, callee.objclass[pn]))
+                    for fld, ft in callee.records[pn].items():
+                        comp = self.rec_component(node, a[1], fld)
+                        if comp is None or comp.ty != ft:
+                            bad(node, "path %s read by %s is not declared (with that type) in view %s" % (fld, callee.pyname, a[1].ty[1]))
+                        if isinstance(ft, tuple) and ft[0] == "Obj":
+                            t = self.tmp()
+                            binds.append((t, "(.ok %s)" % comp.term))
+                            k = len(flat_types(ft))
+                            args.extend(tuple_proj(t, j, k) for j in range(k))
+                        else:
+                            args.append(comp.term)
+                    continue
                 if not (isinstance(a, tuple) and a[0] == "obj"):
                     if isinstance(a, ast.AST) and self.is_objexpr(a, env):
                         cls, terms = self.obj_terms(a, env, binds)
@@ -614,13 +1222,20 @@ class FnTranslator:
                 args.append(self.as_float(a, v))
             elif v.ty == pt:
                 args.append(v.term)
+            elif v.ty == ("L", "I") and pt == ("L", "F"):
+                self.need("IntCast")           # a list display of ints where floats are read: converted element-wise
+                args.append("(List.map (fun (py_k : Int) => ((py_k : Int) : α)) %s)" % v.term)
             else:
                 bad(a, "argument %s of %s: a %s where a %s is declared" % (pn, callee.pyname, v.ty, pt))
+        if callee.uses_fuel:
+            self.uses_fuel = True
         self.needs |= callee.needs
         self.ofnat |= callee.ofnat
         self.math |= callee.math
         t = self.tmp()
-        binds.append((t, "(%s)" % " ".join([callee.lean] + [m for m in MATH_ORDER if m in callee.math] + args)))
+        cname = callee.lean if callee.unit is self.unit else "TV.Gen.%s.%s" % (module_name(callee.unit.path), callee.lean)
+        binds.append((t, "(%s)" % " ".join([cname] + [m for m in MATH_ORDER if m in callee.math]
+                                             + (["fuel"] if callee.uses_fuel else []) + args)))
         return Val(t, callee.ret)
 
     def call(self, e, env, binds):
@@ -632,6 +1247,28 @@ class FnTranslator:
             return Val(None, "S")
         if isinstance(f, ast.Name) and f.id == "str" and "str" not in env and len(e.args) == 1:
             return Val(None, "S")
+        if isinstance(f, ast.Name) and f.id == "float" and "float" not in env and len(e.args) == 1 \
+                and isinstance(e.args[0], ast.Constant) and isinstance(e.args[0].value, str):
+            word = e.args[0].value.strip().lower()
+            if word in ("nan", "inf", "+inf", "infinity", "+infinity"):
+                word = "nan" if word == "nan" else "inf"
+                self.math.add(word)
+                return Val(word, "F")
+            bad(e, "float() of a string")
+        it = self.isinstance_test(e, env)
+        if it is not None:
+            return Val("true" if it else "false", "B")
+        if isinstance(f, ast.Name) and f.id == "len" and "len" not in env and len(e.args) == 1:
+            v = self.expr(e.args[0], env, binds)
+            if not (isinstance(v.ty, tuple) and v.ty[0] == "L"):
+                bad(e, "len of something that is not a list")
+            return Val("(Py.len %s)" % v.term, "I")
+        if isinstance(f, ast.Name) and f.id not in env and f.id in self.opts.get("assume_identity", ()) and len(e.args) == 1:
+            # DECLARED in the signature: on this argument the call returns its argument unchanged (e.g. `listify` on a list)
+            v = self.expr(e.args[0], env, binds)
+            if not (isinstance(v.ty, tuple) and v.ty[0] == "L"):
+                bad(e, "%s is only assumed to be the identity on a list" % f.id)
+            return v
         # argument-less accessor of a declared object parameter
         if isinstance(f, ast.Attribute) and isinstance(f.value, ast.Name) and env.get(f.value.id) == ("R", f.value.id):
             fields = self.records[f.value.id]
@@ -645,11 +1282,23 @@ class FnTranslator:
                     bad(e, "class %s has no constructor of the accepted form" % ft[1])
                 return Val("(" + ", ".join(ident(f.value.id + "_" + f.attr + "_" + g) for g in cf) + ")", ft)
             return Val(ident(f.value.id + "_" + f.attr), ft)
+        # X.size() on an observation list
+        if isinstance(f, ast.Attribute) and f.attr == "size" and not e.args and isinstance(f.value, ast.Name) \
+                and isinstance(env.get(f.value.id), tuple) and env[f.value.id][0] == "L" \
+                and isinstance(env[f.value.id][1], tuple) and env[f.value.id][1][0] == "Rec":
+            return Val("(Py.len %s)" % ident(f.value.id), "I")
         # method of an object (local object, class-typed parameter, result of an operator), resolved statically by its class
         if isinstance(f, ast.Attribute) and self.is_objexpr(f.value, env):
             cls, terms = self.obj_terms(f.value, env, binds)
-            callee = self.unit.lookup(cls + "." + f.attr, self)
+            callee = self.lookup_method(e, ("Obj", cls), f.attr)
             return self.call_translated(e, callee, [("obj", cls, terms)] + list(e.args), env, binds)
+        # method of a record (an observation seen through its declared view), resolved statically to the class of the view
+        if isinstance(f, ast.Attribute):
+            rt = self.static_type(f.value, env)
+            if isinstance(rt, tuple) and rt[0] == "Rec":
+                recv = self.expr_s(f.value, env, binds)
+                callee = self.lookup_method(e, rt, f.attr)
+                return self.call_translated(e, callee, [("rec", recv)] + list(e.args), env, binds)
         # x.is_integer() on a float
         if isinstance(f, ast.Attribute) and f.attr == "is_integer" and not e.args:
             v = self.expr(f.value, env, binds)
@@ -689,6 +1338,19 @@ class FnTranslator:
                         return args[0]
                     self.math.add("trunc")
                     return Val("(trunc %s)" % args[0].term, "I")
+                if name == "abs" and len(args) == 1 and args[0].ty == "I":
+                    return Val("(Py.iabs %s)" % args[0].term, "I")
+                if name in ("min", "max") and len(args) >= 2 and all(a.ty == "I" for a in args):
+                    acc = args[0].term         # CPython: the first among the smallest / greatest
+                    for a in args[1:]:
+                        acc = "(Py.i%s %s %s)" % (name, acc, a.term)
+                    return Val(acc, "I")
+                if name in ("min", "max") and len(args) > 2 and all(a.ty in ("F", "I") for a in args):
+                    self.need("DecidableLT")
+                    acc = self.as_float(e.args[0], args[0])
+                    for n_, a in zip(e.args[1:], args[1:]):
+                        acc = "(Py.f%s %s %s)" % (name, acc, self.as_float(n_, a))
+                    return Val(acc, "F")
                 if name == "abs":
                     if len(args) != 1 or args[0].ty != "F":
                         bad(e, "abs of a non-float")
@@ -708,18 +1370,239 @@ class FnTranslator:
             cf = self.unit.ctor_fields(name)
             if cf is not None:
                 # C(a1, .., an): the object as the tuple of its attributes
-                if len(e.args) != len(cf):
-                    bad(e, "constructor call with defaulted arguments")
-                vals = [self.expr(a, env, binds) for a in e.args]
-                if any(v.ty not in ("F", "I") for v in vals):
-                    bad(e, "constructor argument that is not a number")
-                return Val("(" + ", ".join(self.as_float(a, v) for a, v in zip(e.args, vals)) + ")", ("Obj", name))
+                fields, types, terms = self.ctor_args(e, name, list(e.args), env, binds)
+                return Val("(" + ", ".join(terms) + ")", ("Obj", name))
             callee = self.unit.lookup(name, self)
         elif isinstance(f, ast.Attribute) and isinstance(f.value, ast.Name) and f.value.id not in env:
             callee = self.unit.lookup(f.value.id + "." + f.attr, self)
         else:
             bad(e, "call of something that is not a plain function name")
         return self.call_translated(e, callee, list(e.args), env, binds)
+
+    def ctor_args(self, node, cls, args, env, binds):
+        """terms of the attributes of `cls(args…)` in constructor order; omitted trailing arguments take the defaults of
+        `__init__` when these are numeric literals"""
+        fields, types, defaults = self.unit.ctor_info(cls)
+        if len(args) > len(fields):
+            bad(node, "too many constructor arguments")
+        terms = []
+        for k, f in enumerate(fields):
+            if k < len(args):
+                a = args[k]
+                v = self.expr(a, env, binds)
+            else:
+                a = defaults[k]
+                if a is None:
+                    bad(node, "constructor call with a missing argument")
+                v = self.expr(a, {}, [])
+            if v.ty not in ("F", "I"):
+                bad(node, "constructor argument that is not a number")
+            if types[f] == "F":
+                terms.append(self.as_float(a, v))
+            elif v.ty == "I":
+                terms.append(v.term)
+            else:
+                bad(node, "a float where the constructor declares an int")
+        return fields, types, terms
+
+    # ---- loop state
+    def ret_lean(self):
+        if isinstance(self.ret, tuple) and self.ret[0] == "Obj":
+            return self.unit.obj_lean_ty(self.ret[1])
+        return lean_ty(self.ret)
+
+    @staticmethod
+    def stored_names(stmts):
+        """names (re)bound anywhere in the statements (assignment, augmented assignment, loop targets), lists changed by
+        .append / .remove, objects one of whose attributes is stored"""
+        out = set()
+        for st in stmts:
+            for n in ast.walk(st):
+                if isinstance(n, ast.Name) and isinstance(n.ctx, ast.Store):
+                    out.add(n.id)
+                elif isinstance(n, ast.Attribute) and isinstance(n.ctx, ast.Store) and isinstance(n.value, ast.Name):
+                    out.add(n.value.id)
+                elif isinstance(n, ast.Call) and isinstance(n.func, ast.Attribute) and n.func.attr in ("append", "remove") \
+                        and isinstance(n.func.value, ast.Name):
+                    out.add(n.func.value.id)
+        return out
+
+    @staticmethod
+    def has_jump(stmts):
+        return any(isinstance(n, (ast.Return, ast.Break, ast.Continue)) for st in stmts for n in ast.walk(st))
+
+    @staticmethod
+    def has_loop(stmts):
+        return any(isinstance(n, (ast.For, ast.While)) for st in stmts for n in ast.walk(st))
+
+    def loop_state(self, node, stmts, env, exclude):
+        """LOOP STATE of the statements: the variables they (re)bind that exist outside them — in the order in which
+        they were first bound in the function (the order of `env`) — followed by the locals DECLARED `unbound[τ]` in the
+        signature that they bind and that are not bound yet (carried as `Option τ`, initially `none`). A local object
+        contributes one entry per attribute. Returns (entries, env at entry); an entry is (env key, Lean name, type)."""
+        stored = self.stored_names(stmts) - set(exclude)
+        entries, env_in = [], dict(env)
+        for k, t in env.items():
+            if "." in k or k not in stored:
+                continue
+            if isinstance(t, tuple) and t[0] == "R":
+                bad(node, "parameter object %s is rebound in a loop" % k)
+            if isinstance(t, tuple) and t[0] == "Obj":
+                if k in self.readonly:
+                    bad(node, "store into an attribute of a parameter (visible to the caller)")
+                for key, ft in env.items():
+                    if key.startswith(k + "."):
+                        entries.append((key, ident(k + "_" + key[len(k) + 1:]), ft))
+                continue
+            if t == "S":
+                bad(node, "a string is rebound in a loop")
+            if isinstance(t, tuple) and t[0] == "L" and t[1] is None:
+                bad(node, "list %s has no element type at the loop: declare it in the signature" % k)
+            entries.append((k, ident(k), t))
+        for k in sorted(stored):
+            if k not in env and isinstance(self.locals.get(k), tuple) and self.locals[k][0] == "U":
+                entries.append((k, ident(k), self.locals[k]))
+                env_in[k] = self.locals[k]
+        return entries, env_in
+
+    def pack(self, state, env):
+        """the state tuple built from the current bindings"""
+        terms = []
+        for key, lname, ty in state:
+            cur = env.get(key)
+            if cur == ty:
+                terms.append(lname)
+            elif isinstance(ty, tuple) and ty[0] == "U" and cur == ty[1]:
+                terms.append("(some %s)" % lname)
+            elif ty == "F" and cur == "I":
+                self.need("IntCast")
+                terms.append("((%s : Int) : α)" % lname)
+            else:
+                raise Unsupported("variable %s has type %s at the end of the loop body / branch but %s at its start "
+                                  "(declare its type in the signature)" % (key, cur, ty))
+        if not terms:
+            return "()"
+        return terms[0] if len(terms) == 1 else "(" + ", ".join(terms) + ")"
+
+    def sigma(self, state):
+        if not state:
+            return "Unit"
+        if len(state) == 1:
+            return lean_ty(state[0][2])
+        return "(" + " × ".join(lean_ty(t) for _, _, t in state) + ")"
+
+    def unpack(self, state, var):
+        """`let` bindings of the state variables from the tuple `var`"""
+        n = len(state)
+        if n == 1:
+            return "let %s : %s := %s;\n" % (state[0][1], lean_ty(state[0][2]), var)
+        return "".join("let %s : %s := %s;\n" % (lname, lean_ty(ty), tuple_proj(var, i, n)) for i, (_, lname, ty) in enumerate(state))
+
+    def init_terms(self, state, env):
+        """initial state: the current bindings; `none` for a declared maybe-unbound local that is not bound yet"""
+        out = []
+        for key, lname, ty in state:
+            cur = env.get(key)
+            if key not in env:
+                out.append("(none : %s)" % lean_ty(ty))
+            elif cur == ty:
+                out.append(lname)
+            elif isinstance(ty, tuple) and ty[0] == "U" and cur == ty[1]:
+                out.append("(some %s)" % lname)
+            else:
+                raise Unsupported("variable %s: type %s at loop entry, %s expected" % (key, cur, ty))
+        if not out:
+            return "()"
+        return out[0] if len(out) == 1 else "(" + ", ".join(out) + ")"
+
+    def after_loop(self, n, state, env_after, rest, fresh, K):
+        """the code after a loop: the function returned from inside it, or goes on from the final state"""
+        sv, rv = "py_s%d" % n, "py_r%d" % n
+        return ("match %s with\n| Py.Out.ret py_v => %s\n| Py.Out.done %s =>\n%s%s"
+                % (rv, K.ret("py_v"), sv, self.unpack(state, sv), self.block(rest, env_after, fresh, K)))
+
+    def loop_for(self, s, rest, env, fresh, K):
+        if s.orelse:
+            bad(s, "for ... else")
+        if not isinstance(s.target, ast.Name):
+            bad(s, "loop target that is not a plain name")
+        tgt = s.target.id
+        binds = []
+        it = s.iter
+        body_stored = self.stored_names(s.body)
+        if isinstance(it, ast.Call) and isinstance(it.func, ast.Name) and it.func.id == "range" and "range" not in env \
+                and not it.keywords and 1 <= len(it.args) <= 3:
+            vals = [self.expr(a, env, binds) for a in it.args]       # evaluated once, before the loop
+            if any(v.ty != "I" for v in vals):
+                bad(s, "range() of non-ints")
+            if len(vals) == 1:
+                lst = "(Py.range (0 : Int) %s)" % vals[0].term
+            elif len(vals) == 2:
+                lst = "(Py.range %s %s)" % (vals[0].term, vals[1].term)
+            else:
+                t = self.tmp()
+                binds.append((t, "(Py.rangeStep %s %s %s)" % tuple(v.term for v in vals)))
+                lst = t
+            elt = "I"
+        elif isinstance(it, ast.Name) and isinstance(env.get(it.id), tuple) and env[it.id][0] == "L":
+            if it.id in body_stored:
+                bad(s, "the list iterated over is modified in the loop body")
+            if env[it.id][1] is None:
+                bad(s, "list %s has no element type: declare it in the signature" % it.id)
+            lst, elt = ident(it.id), env[it.id][1]
+        else:
+            bad(s, "iteration over something that is neither range(...) nor a list variable")
+        state, env_in = self.loop_state(s, s.body, env, {tgt})
+        if tgt in env and isinstance(env[tgt], tuple) and env[tgt][0] in ("R", "Obj"):
+            bad(s, "loop target shadows an object")
+        self.nloop += 1
+        n = self.nloop
+        sv, rv = "py_s%d" % n, "py_r%d" % n
+        env_body = dict(env_in)
+        env_body[tgt] = elt
+        body = self.block(list(s.body), env_body, fresh, KLoop(self, state))
+        lam = "(fun (%s : %s) (%s : %s) =>\n%s%s)" % (ident(tgt), lean_ty(elt), sv, self.sigma(state), self.unpack(state, sv), body)
+        env_after = {k: t for k, t in env_in.items() if k != tgt}       # the loop variable is not readable after the loop
+        loop = "(Py.forList (ρ := %s) %s %s %s)" % (self.ret_lean(), lam, lst, self.init_terms(state, env))
+        return self.close(binds + [(rv, loop)], self.after_loop(n, state, env_after, rest, fresh - {tgt}, K))
+
+    def loop_while(self, s, rest, env, fresh, K):
+        if s.orelse:
+            bad(s, "while ... else")
+        state, env_in = self.loop_state(s, s.body, env, set())
+        self.nloop += 1
+        n = self.nloop
+        sv, rv = "py_s%d" % n, "py_r%d" % n
+        K2 = KLoop(self, state)
+        t = s.test
+        if isinstance(t, ast.Constant) and (t.value is True or (type(t.value) is int and t.value == 1)):
+            body = self.block(list(s.body), env_in, fresh, K2)          # while True / while 1
+        else:
+            b = []
+            c = self.expr(t, env_in, b)
+            if c.ty != "B":
+                bad(s, "loop condition is not a bool (truthiness is not in the subset)")
+            body = self.close(b, "if %s then\n%s\nelse\n%s" % (c.term, self.block(list(s.body), env_in, fresh, K2), K2.brk(s, env_in)))
+        self.uses_fuel = True
+        lam = "(fun (%s : %s) =>\n%s%s)" % (sv, self.sigma(state), self.unpack(state, sv), body)
+        loop = "(Py.whileLoop (ρ := %s) %s fuel %s)" % (self.ret_lean(), lam, self.init_terms(state, env))
+        return self.close([(rv, loop)], self.after_loop(n, state, dict(env_in), rest, fresh, K))
+
+    def if_join(self, s, rest, env, fresh, K):
+        """`if` without return / break / continue ahead of a loop: both branches yield the tuple of the variables they bind"""
+        state, env_in = self.loop_state(s, [s], env, set())
+        binds = []
+        c = self.expr(s.test, env, binds)
+        if c.ty != "B":
+            bad(s, "condition is not a bool (truthiness is not in the subset)")
+        self.nloop += 1
+        jv = "py_j%d" % self.nloop
+        KJ = KJoin(self, state)
+        a = self.block(list(s.body), env_in, fresh, KJ)
+        b = self.block(list(s.orelse), env_in, fresh, KJ)
+        joined = "(if %s then\n%s\nelse\n%s)" % (c.term, a, b)
+        pre = "".join("let %s : %s := none;\n" % (lname, lean_ty(ty)) for key, lname, ty in state if key not in env)
+        return pre + self.close(binds + [(jv, joined)], self.unpack(state, jv) + self.block(rest, dict(env_in), fresh, K))
 
     # ---- statements
     def coerce(self, node, v, want):
@@ -740,28 +1623,38 @@ class FnTranslator:
             return "(some %s)" % term if rt is not self.ret else term
         return self.coerce(node, self.expr(node, env, binds), self.ret)
 
-    def block(self, stmts, env, fresh):
+    def block(self, stmts, env, fresh, K):
         """fresh: names of lists created in this function (append allowed)"""
         if not stmts:
-            if isinstance(self.ret, tuple) and self.ret[0] == "O":
-                return "(.ok none)"
-            raise Unsupported("a path falls off the end of the function (returns None) but the declared return type is not optional")
+            return K.end(env)
         s, rest = stmts[0], stmts[1:]
+        if ast.unparse(s) in self.opts.get("assume_noop_stmts", ()):
+            return self.block(rest, env, fresh, K)      # DECLARED: this statement has no effect on anything the function reads later
+        rc = self.opts.get("result_call")
+        if rc and isinstance(s, ast.Expr) and isinstance(s.value, ast.Call) and ast.unparse(s.value.func) == rc \
+                and len(s.value.args) == 1 and not s.value.keywords:
+            # DECLARED: the function's only effect is this call (a setter on a parameter); its argument is the function's RESULT.
+            # Accepted only as the LAST statement of the function body.
+            if rest or not isinstance(K, KFun) or s is not self.last_stmt:
+                bad(s, "the declared result call is not the last statement of the function")
+            return self.block([ast.copy_location(ast.Return(value=s.value.args[0]), s)], env, fresh, K)
         if isinstance(s, ast.Pass):
-            return self.block(rest, env, fresh)
+            return self.block(rest, env, fresh, K)
         if isinstance(s, ast.Expr):
             v = s.value
             if isinstance(v, ast.Constant) and isinstance(v.value, str):
-                return self.block(rest, env, fresh)        # docstring
+                return self.block(rest, env, fresh, K)        # docstring
             if isinstance(v, ast.Call) and isinstance(v.func, ast.Name) and v.func.id == "print" and "print" not in env:
-                return self.block(rest, env, fresh)        # output only
+                return self.block(rest, env, fresh, K)        # output only
             if isinstance(v, ast.Call) and isinstance(v.func, ast.Attribute) and v.func.attr == "append" \
                     and isinstance(v.func.value, ast.Name) and len(v.args) == 1 and not v.keywords:
                 x = v.func.value.id
                 if x not in fresh or x not in env:
                     bad(s, "append to a list that was not created in this function")
                 binds = []
-                a = self.expr(v.args[0], env, binds)
+                a = self.expr_s(v.args[0], env, binds)
+                if a.ty == "S" or (isinstance(a.ty, tuple) and a.ty[0] == "Obj"):
+                    bad(s, "append of a string / an object")
                 elt = env[x][1]
                 if elt is None:
                     elt = a.ty if a.ty != "I" or a.lit is None else None
@@ -777,29 +1670,49 @@ class FnTranslator:
                 env2[x] = ("L", elt)
                 lx = ident(x)
                 if env[x][1] is None:
-                    body = "let %s : %s := [%s];\n%s" % (lx, lean_ty(("L", elt)), term, self.block(rest, env2, fresh))
+                    body = "let %s : %s := [%s];\n%s" % (lx, lean_ty(("L", elt)), term, self.block(rest, env2, fresh, K))
                 else:
-                    body = "let %s := %s ++ [%s];\n%s" % (lx, lx, term, self.block(rest, env2, fresh))
+                    body = "let %s := %s ++ [%s];\n%s" % (lx, lx, term, self.block(rest, env2, fresh, K))
                 return self.close(binds, body)
+            if isinstance(v, ast.Call) and ast.unparse(v.func) in self.opts.get("assume_noop", ()):
+                # DECLARED in the signature: on the declared argument classes this call returns normally and has no effect
+                return self.block(rest, env, fresh, K)
+            if isinstance(v, ast.Call) and isinstance(v.func, ast.Attribute) and v.func.attr == "remove" \
+                    and isinstance(v.func.value, ast.Name) and len(v.args) == 1 and not v.keywords:
+                x = v.func.value.id
+                if x not in fresh or x not in env or env[x][1] is None:
+                    bad(s, "remove from a list that was not created (and typed) in this function")
+                binds = []
+                a = self.expr(v.args[0], env, binds)
+                elt = env[x][1]
+                if elt == "F" and a.ty in ("F", "I"):
+                    self.need("LE", "DecidableLE")
+                    eqv, term = "Py.feq", self.as_float(v.args[0], a)
+                elif elt == "I" and a.ty == "I":
+                    eqv, term = "(fun (py_a py_b : Int) => decide (py_a = py_b))", a.term
+                else:
+                    bad(s, "remove of a %s from a list of %s" % (a.ty, elt))
+                binds.append((ident(x), "(Py.removeFirst %s %s %s)" % (eqv, ident(x), term)))   # ValueError when absent
+                return self.close(binds, self.block(rest, env, fresh, K))
             bad(s, "expression statement")
         if isinstance(s, ast.Return):
             if s.value is None or (isinstance(s.value, ast.Constant) and s.value.value is None):
                 if isinstance(self.ret, tuple) and self.ret[0] == "O":
-                    return "(.ok none)"
+                    return K.ret("none")
                 bad(s, "returns None but the declared return type is not optional")
             if isinstance(self.ret, tuple) and self.ret[0] == "Obj":
                 fields = self.unit.ctor_fields(self.ret[1])
                 if isinstance(s.value, ast.Name) and env.get(s.value.id) == ("Obj", self.ret[1]):
                     x = s.value.id
-                    return "(.ok (%s))" % ", ".join(ident(x + "_" + f) for f in fields)
+                    return K.ret("(%s)" % ", ".join(ident(x + "_" + f) for f in fields))
                 binds = []
                 v = self.expr_s(s.value, env, binds)
                 if v.ty != self.ret:
                     bad(s, "returns a %s where %s is declared" % (v.ty, self.ret))
-                return self.close(binds, ".ok %s" % v.term)
+                return self.close(binds, K.ret(v.term)[1:-1])
             binds = []
             term = self.ret_value(s.value, env, binds)
-            return self.close(binds, ".ok %s" % term)
+            return self.close(binds, K.ret(term)[1:-1])
         if isinstance(s, ast.Assign):
             if len(s.targets) != 1:
                 bad(s, "chained assignment")
@@ -817,26 +1730,24 @@ class FnTranslator:
                 if not (v.ty == env[key] or (env[key] == "F" and v.ty == "I")):
                     bad(s, "attribute %s changes type" % key)
                 term = self.as_float(s.value, v) if env[key] == "F" else v.term
-                body = "let %s : %s := %s;\n%s" % (ident(tgt.value.id + "_" + tgt.attr), lean_ty(env[key]), term, self.block(rest, env, fresh))
+                body = "let %s : %s := %s;\n%s" % (ident(tgt.value.id + "_" + tgt.attr), lean_ty(env[key]), term, self.block(rest, env, fresh, K))
                 return self.close(binds, body)
             if isinstance(tgt, ast.Name) and isinstance(s.value, ast.Call) and isinstance(s.value.func, ast.Name) \
                     and s.value.func.id not in env and self.unit.ctor_fields(s.value.func.id) is not None:
                 # x = C(a1, .., an) for a class C of this file whose __init__ only stores its parameters
                 x, cls = tgt.id, s.value.func.id
-                fields = self.unit.ctor_fields(cls)
-                if s.value.keywords or len(s.value.args) != len(fields):
-                    bad(s, "constructor call with keyword / defaulted arguments")
+                if s.value.keywords:
+                    bad(s, "constructor call with keyword arguments")
                 binds = []
-                vals = [self.expr(a, env, binds) for a in s.value.args]
+                fields, types, terms = self.ctor_args(s, cls, list(s.value.args), env, binds)
                 env2 = {k: t for k, t in env.items() if not k.startswith(x + ".")}
                 env2[x] = ("Obj", cls)
+                self.readonly.discard(x)
                 lets = []
-                for f, a, v in zip(fields, s.value.args, vals):
-                    if v.ty not in ("F", "I"):
-                        bad(s, "constructor argument that is not a number")
-                    env2[x + "." + f] = "F"          # coordinates are floats
-                    lets.append("let %s : α := %s" % (ident(x + "_" + f), self.as_float(a, v)))
-                return self.close(binds, ";\n".join(lets) + ";\n" + self.block(rest, env2, fresh - {x}))
+                for f, term in zip(fields, terms):
+                    env2[x + "." + f] = types[f]
+                    lets.append("let %s : %s := %s" % (ident(x + "_" + f), lean_ty(types[f]), term))
+                return self.close(binds, ";\n".join(lets) + ";\n" + self.block(rest, env2, fresh - {x}, K))
             if isinstance(tgt, ast.Name) and (isinstance(s.value, ast.Call) and isinstance(s.value.func, ast.Attribute)
                                               or isinstance(s.value, ast.BinOp) and self.is_objexpr(s.value, env)):
                 binds = []
@@ -847,14 +1758,15 @@ class FnTranslator:
                     if fields is None:
                         bad(s, "class %s has no constructor of the accepted form" % cls)
                     t = self.tmp()
-                    lets = ["let %s : (%s) := %s" % (t, " × ".join(["α"] * len(fields)), v.term)]
+                    ftypes = self.unit.ctor_info(cls)[1]
+                    lets = ["let %s : %s := %s" % (t, self.unit.obj_lean_ty(cls), v.term)]
                     env2 = {k: ty for k, ty in env.items() if not k.startswith(x + ".")}
                     env2[x] = ("Obj", cls)
                     self.readonly.discard(x)
                     for i, g in enumerate(fields):
-                        env2[x + "." + g] = "F"
-                        lets.append("let %s : α := %s" % (ident(x + "_" + g), tuple_proj(t, i, len(fields))))
-                    return self.close(binds, ";\n".join(lets) + ";\n" + self.block(rest, env2, fresh - {x}))
+                        env2[x + "." + g] = ftypes[g]
+                        lets.append("let %s : %s := %s" % (ident(x + "_" + g), lean_ty(ftypes[g]), tuple_proj(t, i, len(fields))))
+                    return self.close(binds, ";\n".join(lets) + ";\n" + self.block(rest, env2, fresh - {x}, K))
             if isinstance(tgt, ast.Name):
                 x = tgt.id
                 # list creation
@@ -862,16 +1774,27 @@ class FnTranslator:
                 if (isinstance(val, ast.Call) and isinstance(val.func, ast.Name) and val.func.id == "list" and not val.args
                         and not val.keywords and "list" not in env) or (isinstance(val, ast.List) and not val.elts):
                     env2 = dict(env)
+                    if isinstance(self.locals.get(x), tuple) and self.locals[x][0] == "L":
+                        env2[x] = self.locals[x]     # element type declared in the signature
+                        return "let %s : %s := [];\n%s" % (ident(x), lean_ty(env2[x]), self.block(rest, env2, fresh | {x}, K))
                     env2[x] = ("L", None)       # element type fixed by the first append
-                    return self.block(rest, env2, fresh | {x})
+                    return self.block(rest, env2, fresh | {x}, K)
                 binds = []
                 v = self.expr_s(val, env, binds)
                 ty = v.ty
                 term = v.term
                 if x in self.locals:
                     want = self.locals[x]
+                    if isinstance(want, tuple) and want[0] == "U":
+                        want = want[1]      # declared maybe-unbound: after this assignment it is bound, of type τ
                     if want == "F" and ty in ("F", "I"):
                         term, ty = self.as_float(val, v), "F"
+                    elif want == ("L", "F") and ty == ("L", "I") and isinstance(val, ast.List):
+                        b2 = []
+                        term = "[" + ", ".join(self.as_float(x, self.expr(x, env, b2)) for x in val.elts) + "]"
+                        ty = ("L", "F")       # `S = [0]` later extended with floats
+                    elif want == "I" and ty == "F":
+                        pass        # declared int for its integer-literal bindings; this binding is a float (dynamic typing)
                     elif want != ty:
                         bad(s, "local %s is declared %s but is assigned a %s" % (x, want, ty))
                 elif ty == "I" and v.lit is not None:
@@ -883,11 +1806,11 @@ class FnTranslator:
                         bad(s, "string-valued expression with a part that can raise")
                     env2 = dict(env)
                     env2[x] = "S"           # usable only as an argument of print(): nothing accepts an S
-                    return self.block(rest, env2, fresh - {x})
+                    return self.block(rest, env2, fresh - {x}, K)
                 env2 = dict(env)
                 env2[x] = ty
                 fresh2 = (fresh | {x}) if isinstance(val, ast.List) else (fresh - {x})
-                body = "let %s : %s := %s;\n%s" % (ident(x), lean_ty(ty), term, self.block(rest, env2, fresh2))
+                body = "let %s : %s := %s;\n%s" % (ident(x), lean_ty(ty), term, self.block(rest, env2, fresh2, K))
                 return self.close(binds, body)
             if isinstance(tgt, ast.Tuple) and all(isinstance(t, ast.Name) for t in tgt.elts):
                 binds = []
@@ -903,7 +1826,7 @@ class FnTranslator:
                 for i, n in enumerate(names):
                     env2[n] = v.ty[1][i]
                     lets.append("let %s : %s := %s" % (ident(n), lean_ty(v.ty[1][i]), tuple_proj(t, i, len(names))))
-                body = ";\n".join(lets) + ";\n" + self.block(rest, env2, fresh - set(names))
+                body = ";\n".join(lets) + ";\n" + self.block(rest, env2, fresh - set(names), K)
                 return self.close(binds, body)
             bad(s, "assignment target")
         if isinstance(s, ast.AugAssign):
@@ -917,14 +1840,30 @@ class FnTranslator:
             new = ast.Assign(targets=[tstore], value=ast.BinOp(left=tload, op=s.op, right=s.value))
             ast.copy_location(new, s)
             ast.fix_missing_locations(new)
-            return self.block([new] + rest, env, fresh)
+            return self.block([new] + rest, env, fresh, K)
+        if isinstance(s, ast.For):
+            return self.loop_for(s, rest, env, fresh, K)
+        if isinstance(s, ast.While):
+            return self.loop_while(s, rest, env, fresh, K)
+        if isinstance(s, ast.Break):
+            return K.brk(s, env)           # statements after it on the same path are unreachable
+        if isinstance(s, ast.Continue):
+            return K.cont(s, env)
+        if isinstance(s, ast.If):
+            st = self.static_bool(s.test, env)
+            if st is not None:
+                # the test is an isinstance test decided by the declared kinds: only the branch taken is translated
+                return self.block(list(s.body if st else s.orelse) + rest, env, fresh, K)
+        if isinstance(s, ast.If) and self.has_loop(rest) and not self.has_jump([s]) \
+                and all(n in env or (isinstance(self.locals.get(n), tuple) and self.locals[n][0] == "U") for n in self.stored_names([s])):
+            return self.if_join(s, rest, env, fresh, K)
         if isinstance(s, ast.If):
             binds = []
             c = self.expr(s.test, env, binds)
             if c.ty != "B":
                 bad(s, "condition is not a bool (truthiness is not in the subset)")
-            a = self.block(list(s.body) + rest, env, fresh)
-            b = self.block(list(s.orelse) + rest, env, fresh)
+            a = self.block(list(s.body) + rest, env, fresh, K)
+            b = self.block(list(s.orelse) + rest, env, fresh, K)
             return self.close(binds, "if %s then\n%s\nelse\n%s" % (c.term, a, b))
         bad(s, "statement %s" % type(s).__name__)
 
@@ -947,7 +1886,8 @@ class FnTranslator:
                 env[k + "." + fld] = ft
         self._env_names = set(self.params)
         self.assigned = {n.id for n in ast.walk(fdef) if isinstance(n, ast.Name) and isinstance(n.ctx, ast.Store)}
-        body = self.block(list(fdef.body), env, frozenset())
+        self.last_stmt = fdef.body[-1]
+        body = self.block(list(fdef.body), env, frozenset(), KFun(self))
         alltypes = [t for p, t in self.params.items() if p not in self.records] + [self.ret]
         for r in self.records.values():
             alltypes += list(r.values())
@@ -963,6 +1903,8 @@ class FnTranslator:
         for m in MATH_ORDER:
             if m in self.math:
                 sig.append("(%s : %s)" % (m, MATH_FUNS[m][2]))
+        if self.uses_fuel:
+            sig.append("(fuel : Nat)")
         for p, t in self.params.items():
             if p in self.records:
                 for f, ft in self.records[p].items():
@@ -971,8 +1913,9 @@ class FnTranslator:
                         fields = self.unit.ctor_fields(ft[1])
                         if fields is None:
                             raise Unsupported("class %s has no constructor of the accepted form" % ft[1])
+                        ftypes = self.unit.ctor_info(ft[1])[1]
                         for g in fields:
-                            sig.append("(%s : α)" % ident(base + "_" + g))
+                            sig.append("(%s : %s)" % (ident(base + "_" + g), lean_ty(ftypes[g])))
                     else:
                         sig.append("(%s : %s)" % (ident(base), lean_ty(ft)))
             else:
@@ -981,7 +1924,7 @@ class FnTranslator:
             fields = self.unit.ctor_fields(self.ret[1])
             if fields is None:
                 raise Unsupported("class %s has no constructor of the accepted form" % self.ret[1])
-            rty = "(" + " × ".join(["α"] * len(fields)) + ")"
+            rty = self.unit.obj_lean_ty(self.ret[1])
         else:
             rty = lean_ty(self.ret)
         head = "def %s %s : Py.M %s :=\n" % (self.lean, " ".join(sig), rty)
@@ -991,13 +1934,25 @@ class FnTranslator:
 # ----------------------------------------------- one file -----------------------------------------------
 class Unit:
     """one python source file -> one Lean module"""
-    def __init__(self, repo, path, entries):
+    def __init__(self, repo, path, entries, registry=None):
         self.path, self.entries = path, entries
         self.src = os.path.join(repo, "tracklib", path)
-        self.done = {}      # python name -> FnTranslator (translated) | None (failed)
+        self.done = {}      # lean name -> FnTranslator (translated) | None (failed)
         self.out = []       # (lean text | comment)
         self.defs = {}
         self.tree = None
+        self.parse_error = None
+        self.registry = registry if registry is not None else {}      # path -> Unit (cross-file calls)
+        self.imports = []   # other generated modules this one calls into
+
+    def parse(self):
+        if self.tree is None and self.parse_error is None:
+            try:
+                with open(self.src) as fh:
+                    self.tree = ast.parse(fh.read())
+            except (OSError, SyntaxError) as ex:
+                self.parse_error = str(ex).replace("\n", " ")
+        return self.tree is not None
 
     def find(self, qual):
         parts = qual.split(".")
@@ -1032,9 +1987,19 @@ class Unit:
             return None
         return hits[0]
 
-    def ctor_fields(self, cls):
-        """attribute names, in parameter order, of a class of this file whose __init__ is exactly
-        `self.p = p` for each of its parameters (docstring allowed); None otherwise"""
+    def ctor_info(self, cls):
+        """ctor_info_local of the class in this file, else in the unique whitelisted file that defines it"""
+        if self.parse() and any(isinstance(n, ast.ClassDef) and n.name == cls for n in self.tree.body):
+            return self.ctor_info_local(cls)
+        u = find_class_unit(cls)
+        return u.ctor_info_local(cls) if u is not None else None
+
+    def ctor_info_local(self, cls):
+        """(attribute names in parameter order, {attribute: type}, [default expression | None per parameter]) of a class
+        of this file whose __init__ is `self.a = p` exactly once for each of its parameters p (any order; docstring
+        allowed), possibly wrapped as `if isinstance(<first parameter>, str): <anything> else: <the stores>` (the string
+        form of the constructor is never taken: the translator only accepts numeric arguments); None otherwise.
+        The type of an attribute is the annotation of its parameter when that is `int`, otherwise float."""
         hit = [n for n in self.tree.body if isinstance(n, ast.ClassDef) and n.name == cls]
         if len(hit) != 1:
             return None
@@ -1047,57 +2012,112 @@ class Unit:
         params = [x.arg for x in a.args]
         body = [st for st in inits[0].body
                 if not (isinstance(st, ast.Expr) and isinstance(st.value, ast.Constant) and isinstance(st.value.value, str))]
-        fields = []
-        for st, pname in zip(body, params[1:]):
+        if len(body) == 1 and isinstance(body[0], ast.If) and len(params) > 1:
+            t = body[0].test
+            if (isinstance(t, ast.Call) and isinstance(t.func, ast.Name) and t.func.id == "isinstance" and len(t.args) == 2
+                    and not t.keywords and isinstance(t.args[0], ast.Name) and t.args[0].id == params[1]
+                    and isinstance(t.args[1], ast.Name) and t.args[1].id == "str"):
+                body = list(body[0].orelse)
+        attr_of = {}
+        for st in body:
             ok = (isinstance(st, ast.Assign) and len(st.targets) == 1 and isinstance(st.targets[0], ast.Attribute)
                   and isinstance(st.targets[0].value, ast.Name) and st.targets[0].value.id == params[0]
-                  and isinstance(st.value, ast.Name) and st.value.id == pname)
+                  and isinstance(st.value, ast.Name) and st.value.id in params[1:] and st.value.id not in attr_of)
             if not ok:
                 return None
-            fields.append(st.targets[0].attr)
-        if len(body) != len(params) - 1 or len(set(fields)) != len(fields):
+            attr_of[st.value.id] = st.targets[0].attr
+        if len(body) != len(params) - 1:
             return None
-        return fields
+        fields = [attr_of[p] for p in params[1:]]
+        if len(set(fields)) != len(fields):
+            return None
+        types = {}
+        for x in a.args[1:]:
+            ann = x.annotation
+            types[attr_of[x.arg]] = "I" if (isinstance(ann, ast.Name) and ann.id == "int") else "F"
+        defaults = [None] * (len(params) - 1 - len(a.defaults)) + list(a.defaults)
+        return fields, types, defaults
+
+    def ctor_fields(self, cls):
+        info = self.ctor_info(cls)
+        return None if info is None else info[0]
+
+    def obj_lean_ty(self, cls):
+        fields, types, _ = self.ctor_info(cls)
+        return "(" + " × ".join(lean_ty(types[f]) for f in fields) + ")"
+
+    def class_constant(self, cls, name):
+        """defining expression of `name`, bound exactly once in the body of class `cls` of this file (class-level
+        constant, e.g. ObsTime.UNIX_BASE_YEAR); a private name `__x` is looked up as written"""
+        hit = [n for n in self.tree.body if isinstance(n, ast.ClassDef) and n.name == cls]
+        if len(hit) != 1:
+            return None
+        vals = [n.value for n in hit[0].body if isinstance(n, ast.Assign) and len(n.targets) == 1
+                and isinstance(n.targets[0], ast.Name) and n.targets[0].id == name]
+        stores = [n for n in ast.walk(self.tree) if isinstance(n, ast.Attribute) and isinstance(n.ctx, ast.Store) and n.attr == name]
+        if len(vals) != 1 or stores:
+            return None
+        return vals[0]
 
     def lookup(self, pyname, caller):
         entry = [e for e in self.entries if e[1] == pyname]
         if not entry:
-            return None
-        if pyname not in self.done:
+            # DECLARED cross-file call: {"imports": {name: "pkg/file.py"}} in the caller's signature, accepted only if this file
+            # binds the name by a `from … import name` (and nowhere else at module level); the callee is the whitelisted
+            # function `name` of that file (that the package re-exports that very function is part of the declaration)
+            path = caller.opts.get("imports", {}).get(pyname) if caller is not None else None
+            other = self.registry.get(path)
+            if other is None or other is self or not other.parse():
+                return None
+            bound = [n for n in self.tree.body if isinstance(n, ast.ImportFrom) and any(a.name == pyname and a.asname is None for a in n.names)]
+            rebound = [n for n in self.tree.body if isinstance(n, (ast.FunctionDef, ast.ClassDef)) and n.name == pyname] + \
+                      [n for n in self.tree.body if isinstance(n, ast.Assign) and any(isinstance(t, ast.Name) and t.id == pyname for t in n.targets)]
+            if len(bound) != 1 or rebound:
+                return None
+            callee = other.lookup(pyname, None)
+            if callee is not None and module_name(other.path) not in self.imports:
+                self.imports.append(module_name(other.path))
+            return callee
+        if len(entry) > 1:
+            # several translations of one function under different declared argument types (VARIANTS): the caller's
+            # signature says which one its call is, {"variants": {python name: lean name}}
+            want = caller.opts.get("variants", {}).get(pyname) if caller is not None else None
+            entry = [e for e in entry if e[2] == want]
+            if len(entry) != 1:
+                return None
+        if entry[0][2] not in self.done:
             self.run(entry[0])
-        return self.done[pyname]
+        return self.done[entry[0][2]]
 
     def run(self, entry):
         pyname = entry[1]
-        if pyname in self.done:
+        if entry[2] in self.done:
             return
-        self.done[pyname] = None   # a recursive call finds None: recursion is not in the subset
+        self.done[entry[2]] = None   # a recursive call finds None: recursion is not in the subset
         try:
             node = self.find(pyname)
             if node is None:
                 raise Unsupported("no unique function %s in %s" % (pyname, self.path))
             tr = FnTranslator(self, entry)
             text = tr.translate(node)
-            self.done[pyname] = tr
+            self.done[entry[2]] = tr
             self.out.append("/-- `%s` of tracklib/%s -/\n%s" % (pyname, self.path, text))
         except Unsupported as ex:
             self.out.append("-- NOT TRANSLATED: `%s` of tracklib/%s: %s\n" % (pyname, self.path, ex))
 
     def render(self):
         mod = module_name(self.path)
-        head = ("import TracklibVerif.Model.PyPrelude\n"
+        head = ("import TracklibVerif.Model.PyPrelude\n%s"
                 "/-! GENERATED by tools/py2lean.py from tracklib/%s — do not edit, not under version control.\n"
                 "Semantics of every `Py.*` operation: lean/TracklibVerif/Model/PyPrelude.lean. -/\n"
                 "set_option linter.unusedVariables false\n"
-                "namespace TV.Gen.%s\nopen TV\n\n" % (self.path, mod))
-        try:
-            with open(self.src) as fh:
-                self.tree = ast.parse(fh.read())
-        except (OSError, SyntaxError) as ex:
-            return head + "-- NOT TRANSLATED: cannot read / parse the source: %s\n\nend TV.Gen.%s\n" % (str(ex).replace("\n", " "), mod)
+                "namespace TV.Gen.%s\nopen TV\n\n")
+        if not self.parse():
+            return head % ("", self.path, mod) + "-- NOT TRANSLATED: cannot read / parse the source: %s\n\nend TV.Gen.%s\n" % (self.parse_error, mod)
         for e in self.entries:
             self.run(e)
-        return head + "\n".join(self.out) + "\nend TV.Gen.%s\n" % mod
+        imps = "".join("import TracklibVerif.Gen.%s\n" % m for m in self.imports)
+        return head % (imps, self.path, mod) + "\n".join(self.out) + "\nend TV.Gen.%s\n" % mod
 
 
 def module_name(path):
@@ -1115,8 +2135,13 @@ def main():
     for e in WHITELIST:
         files.setdefault(e[0], []).append(e)
     outs = {}
+    registry = {}
     for path, entries in files.items():
-        outs[module_name(path) + ".lean"] = Unit(a.repo, path, entries).render()
+        registry[path] = Unit(a.repo, path, entries, registry)
+    REG.clear()
+    REG.update(registry)
+    for path, u in registry.items():
+        outs[module_name(path) + ".lean"] = u.render()
     if a.print:
         for k, v in outs.items():
             print("-- ==== %s ====\n%s" % (k, v))
